@@ -40,9 +40,7 @@ MSG = 'dawgie.pl.message'
 HAND = FARM + '.Hand'
 WORKERS = FARM + '._workers'
 CLUSTER = FARM + '._cluster'
-# ND of the design: cloud placement.  The farm global that holds the cloud agency; branches taken when it is set are
-# not decided, and lists that only the agency's callbacks can grow are assumed empty elsewhere (validated structurally).
-AGENCY = FARM + '._agency'
+AGENCY = FARM + '._agency'  # cloud agency holder (placement in the cloud itself is not decided)
 GIT_REV = 'dawgie.context.git_rev'
 FSMQ = 'dawgie.pl.state.FSM'
 ACTIVE = FSMQ + '.is_pipeline_active'
@@ -506,47 +504,6 @@ class Model:
             self._prov[k] = Prov(self, func, source)
         return self._prov[k]
 
-    # ------------------------------------------------------------ cloud
-    def cloud_test(self, e, func):
-        """expression is the truthiness of the configured cloud agency (element of the agency holder)"""
-        return isinstance(e, ast.Subscript) and self.prog.resolve_in(e.value, func) == AGENCY
-
-    def cloud_only(self, gq):
-        """(bool, reason): every grow of gq happens in a function that is only ever referenced under `if <agency>`"""
-        c = self.__dict__.setdefault('_co', {})
-        if gq in c:
-            return c[gq]
-        res = (True, '')
-        sites = [r for r in self.refs(gq) if r.op in ('grow', 'init-nonempty', 'escape', 'unknown-method')]
-        if not sites:
-            res = (False, 'never grown at all')
-        for r in sites:
-            if r.op != 'grow' or r.func is None:
-                res = (False, f'{r.op} at {r.where}')
-                break
-            edges = self.cg.callers(r.func.qname)
-            if not edges:
-                res = (False, f'{r.func.qname} has no resolved reference')
-                break
-            for e in edges:
-                if e.src is None or not self._under_agency(e.src, e.call):
-                    res = (False, f'{r.func.qname} is referenced outside an `if <agency>` block in {e.src.qname if e.src else "?"}')
-                    break
-            if not res[0]:
-                break
-        c[gq] = res
-        return res
-
-    def _under_agency(self, func, node):
-        for anc, child in self.ancestors(func.module, node):
-            if anc is func.node:
-                return False
-            if isinstance(anc, ast.If) and any(child is s for s in anc.body):
-                conj = anc.test.values if isinstance(anc.test, ast.BoolOp) and isinstance(anc.test.op, ast.And) else [anc.test]
-                if any(self.cloud_test(t, func) for t in conj):
-                    return True
-        return False
-
 
 # ---------------------------------------------------------------------------
 # provenance of values with respect to one farm list (DESIGN R-C11-1: "accepted by provenance, not by name")
@@ -774,3 +731,2041 @@ class Prov:
             and isinstance(e.func.value, (ast.Name, ast.Attribute))
             and self.prog.resolve_in(e.func.value, self.f) == self.source
         )
+
+
+# ---------------------------------------------------------------------------
+# path-sensitive facts: state = frozenset of (key, value)
+
+
+def fget(st, key, default=None):
+    for k, v in st:
+        if k == key:
+            return v
+    return default
+
+
+def fput(st, key, val):
+    s = {(k, v) for k, v in st if k != key}
+    if val is not None:
+        s.add((key, val))
+    return frozenset(s)
+
+
+def fsplit(st, key):
+    """branch on a boolean fact: -> (true states, false states), refining when the fact is still unknown"""
+    cur = fget(st, key)
+    if cur is True:
+        return (st,), ()
+    if cur is False:
+        return (), (st,)
+    return (fput(st, key, True),), (fput(st, key, False),)
+
+
+class FactFlow(Flow):
+    """common machinery: revision / activity atoms, boolean locals carrying an atom, message events, states at calls"""
+
+    def __init__(self, model, func):
+        super().__init__()
+        self.m = model
+        self.prog = model.prog
+        self.f = func
+        self.at = {}  # id(call) -> set of states in which the call executes
+        self.rets = []  # (Return node, state)
+        self.msg_params = set()  # parameters whose .revision was compared with the pipeline revision
+
+    # ---- atoms ------------------------------------------------------
+    def is_local(self, name):
+        return (self.prog.resolve_in(ast.Name(id=name, ctx=ast.Load()), self.f) or '').startswith('local:')
+
+    def rev_atom(self, e):
+        """<param>.revision ==/!= dawgie.context.git_rev -> True when the comparison is an equality, False for !=, else None"""
+        if not (isinstance(e, ast.Compare) and len(e.ops) == 1):
+            return None
+        a, b = e.left, e.comparators[0]
+        for x, y in ((a, b), (b, a)):
+            if isinstance(x, (ast.Name, ast.Attribute)) and self.prog.resolve_in(x, self.f) == GIT_REV:
+                y = _deref(self.f, y)
+                if isinstance(y, ast.Attribute) and y.attr == 'revision' and isinstance(y.value, ast.Name) and y.value.id in self.f.params():
+                    if isinstance(e.ops[0], (ast.Eq, ast.Is)):
+                        self.msg_params.add(y.value.id)
+                        return True
+                    if isinstance(e.ops[0], (ast.NotEq, ast.IsNot)):
+                        self.msg_params.add(y.value.id)
+                        return False
+        return None
+
+    def active_call(self, e):
+        return isinstance(e, ast.Call) and self.prog.callee(e, self.f) == ACTIVE
+
+    def has_atom(self, e):
+        for n in ast.walk(e):
+            if isinstance(n, ast.Compare) and self.rev_atom(n) is not None:
+                return True
+            if isinstance(n, ast.Call) and (self.active_call(n) or self.extra_atom(n)):
+                return True
+            if isinstance(n, ast.Compare) and self.extra_atom(n):
+                return True
+        return False
+
+    def extra_atom(self, e):
+        return False
+
+    def test(self, e, st):
+        """rule specific atoms -> (true states, false states) or None"""
+        return None
+
+    def on_test(self, e, st):
+        if isinstance(e, ast.Name) and self.is_local(e.id):
+            return fsplit(st, ('b', e.id))
+        rv = self.rev_atom(e)
+        if rv is not None:
+            t, f = fsplit(st, 'rev')
+            return (t, f) if rv else (f, t)
+        if self.active_call(e):
+            return fsplit(st, 'active')
+        r = self.test(e, st)
+        if r is not None:
+            return r
+        return (st,), (st,)
+
+    # ---- statements -------------------------------------------------
+    def kill_name(self, st, name):
+        return frozenset((k, v) for k, v in st if not (isinstance(k, tuple) and len(k) > 1 and k[1] == name))
+
+    def assigned(self, s, name, st):
+        """hook: local `name` was just bound by statement s (facts about the name are already dropped)"""
+        return st
+
+    def _s_Assign(self, s, states):
+        if len(s.targets) == 1 and isinstance(s.targets[0], ast.Name) and self.is_local(s.targets[0].id) and self.has_atom(s.value):
+            name = s.targets[0].id
+            t, f = self.cond(s.value, states)
+            res = {fput(self.kill_name(st, name), ('b', name), True) for st in t}
+            res |= {fput(self.kill_name(st, name), ('b', name), False) for st in f}
+            return Out(self._cap({self.assigned(s, name, st) for st in res}))
+        cur = states
+        for e in self._stmt_exprs(s):
+            cur = self.eval(e, cur)
+        return Out(self._each(self._assign_post, s, cur))
+
+    def _assign_post(self, s, st):
+        for t in s.targets:
+            for n in ast.walk(t):
+                if isinstance(n, ast.Name) and isinstance(n.ctx, ast.Store):
+                    st = self.assigned(s, n.id, self.kill_name(st, n.id))
+        return self.on_stmt(s, st)
+
+    def on_stmt(self, s, st):
+        self.at.setdefault(id(s), set()).add(st)
+        return (st,)
+
+    def on_for(self, node, st):
+        for n in ast.walk(node.target):
+            if isinstance(n, ast.Name):
+                st = self.kill_name(st, n.id)
+        return (st,)
+
+    def on_return(self, node, st):
+        self.rets.append((node, st))
+        return (st,)
+
+    # ---- calls ------------------------------------------------------
+    def on_call(self, call, st):
+        self.at.setdefault(id(call), set()).add(st)
+        if self.m.is_send(call, self.f):
+            b = _bind(call, self.m.send.params())
+            if b is not None and len(b) >= 2:
+                msg, to = (b[p] for p in self.m.send.params()[:2])
+                if _is_name(to, 'self'):
+                    role = self.m.msg_role(msg, self.f)
+                    role = 'param' if isinstance(role, tuple) else role
+                    st = fput(st, 'ev:' + role, True)
+        elif self.m.is_close(call, self.f):
+            st = fput(st, 'ev:close', True)
+        return self.call(call, st)
+
+    def call(self, call, st):
+        return (st,)
+
+
+def exit_states(flow, func, init=frozenset()):
+    o = flow.run(func.node, init)
+    return o.normal | o.ret, o.exc
+
+
+# ---------------------------------------------------------------------------
+# R-C11-1
+
+
+def _gated(model, func, node, depth=3):
+    """revision fact at `node` of func: (ok, detail).  Looks one..three callers up when func itself has no revision test."""
+    fl = FactFlow(model, func)
+    fl.run(func.node, frozenset())
+    sts = fl.at.get(id(node), set())
+    if not sts:
+        return False, f'{norm(node)[:60]} is not reached by the path analysis of {func.qname}'
+    revs = {fget(st, 'rev') for st in sts}
+    if revs == {True}:
+        return True, f'reached only with {"/".join(sorted(fl.msg_params))}.revision == git_rev true ({len(sts)} abstract state(s))'
+    if False in revs:
+        return False, f'reachable in {func.qname} on the branch where the revision differs from dawgie.context.git_rev'
+    # no revision test on some path inside this function: every caller must establish it
+    edges = model.cg.callers(func.qname)
+    if not edges or depth == 0:
+        return False, f'reachable in {func.qname} without any comparison of the registering message revision with dawgie.context.git_rev'
+    for e in edges:
+        if e.kind != DIRECT or e.src is None:
+            return False, f'{func.qname} is entered as a callback from {e.src.qname if e.src else "module level"} where no revision fact holds'
+        ok, det = _gated(model, e.src, e.call, depth - 1)
+        if not ok:
+            return False, det
+    return True, f'every caller of {func.qname} establishes the revision equality'
+
+
+def _absent(model, func, node, depth=2):
+    """the hand is known not to be in the idle list when `node` of func executes (looked up in the callers when func has no test)"""
+    fl = _Member(model, func, set())
+    fl.run(func.node, frozenset())
+    sts = fl.at.get(id(node), set())
+    vals = {fget(st, 'in') for st in sts}
+    if sts and vals == {False}:
+        return True, f'reached only with the hand known absent from the idle list ({len(sts)} abstract state(s))'
+    if True in vals:
+        return False, 'reachable on the branch where the hand is already in the idle list'
+    edges = [e for e in model.cg.callers(func.qname)]
+    tested = any(fl._atom(n) is not None for n in func.own_nodes() if isinstance(n, (ast.Compare, ast.Call)))
+    if tested or not edges or depth == 0 or any(e.kind != DIRECT or e.src is None for e in edges):
+        return False, 'reachable without a test that the hand is not yet in the idle list'
+    for e in edges:
+        ok, det = _absent(model, e.src, e.call, depth - 1)
+        if not ok:
+            return False, det
+    return True, f'every caller of {func.qname} establishes that the hand is not listed yet'
+
+
+def _register_handlers(model, new_sites):
+    """functions that handle a registration: those inserting a new hand, plus the same-named overrides in the hierarchy"""
+    prog = model.prog
+    out = {}
+    names = set()
+
+    def tests_revision(f):
+        fl = FactFlow(model, f)
+        fl.run(f.node, frozenset())
+        return bool(fl.msg_params)
+
+    for r in new_sites:
+        f = r.func
+        while f.parent is not None:
+            f = f.parent
+        # the handler is the function that holds the revision test: the inserting function or (helper extracted) its callers
+        level = [f]
+        for _ in range(3):
+            if all(tests_revision(x) for x in level):
+                break
+            nxt = []
+            for x in level:
+                if tests_revision(x):
+                    nxt.append(x)
+                    continue
+                srcs = [e.src for e in model.cg.callers(x.qname) if e.kind == DIRECT and e.src is not None]
+                nxt.extend(srcs or [x])
+            level = nxt
+        for x in level:
+            out[x.qname] = x
+            if x.cls is not None:
+                names.add(x.name)
+    for cq in model.hier:
+        for n in names:
+            c = prog.classes[cq]
+            if n in c.methods:
+                out[c.methods[n].qname] = c.methods[n]
+    return [out[k] for k in sorted(out)]
+
+
+def _farm_mutations(model, func):
+    """grow operations on any farm container inside func"""
+    out = []
+    for g in model.farm_containers():
+        for r in model.refs(g):
+            if r.func is func and r.op in ('grow', 'escape', 'unknown-method'):
+                out.append((g, r))
+    return out
+
+
+def _rule1(model, rep):
+    prog, cg = model.prog, model.cg
+    with rep.rule(
+        'R-C11-1',
+        'a hand enters the idle list only on the branch where its revision equals the pipeline revision; every other insertion '
+        're-inserts hands taken from the idle list itself after clearing it; stale revisions and an inactive pipeline are answered '
+        'with the abort message',
+        floor=7,
+        breaks='a worker running another software revision (or an object that never registered) is given a task, or a hand is '
+        'listed twice and given two tasks',
+    ) as r:
+        refs = model.refs(WORKERS)
+        r.extra['references_to_idle_list'] = len(refs)
+        new_sites = []
+        mutators = {}
+        for ref in refs:
+            if ref.func is not None:
+                rep.analysed(ref.func)
+            if ref.op in ('read', 'permute', 'init'):
+                continue
+            if ref.op == 'shrink':
+                if ref.func is not None:
+                    mutators[ref.func.qname] = ref.func
+                continue
+            if ref.op != 'grow' or ref.func is None:
+                r.instance()
+                r.fail(
+                    f'{ref.owner}:{norm(ref.site)[:100]}',
+                    ref.where,
+                    f'the idle-worker list is used in a way the analysis does not understand ({ref.op}: {norm(ref.site)[:80]}); '
+                    'it may be filled or aliased outside the registration gate',
+                )
+                continue
+            r.instance()
+            f = ref.func
+            mutators[f.qname] = f
+            pv = model.prov(f, WORKERS)
+            kinds = [kseq(pv.kind(e)) if ref.seq else pv.kind(e) for e in ref.elems] or ['K']
+            key = ref.key()
+            if all(k in ('W', 'E') for k in kinds):
+                # re-insertion of hands that were in the list: must not duplicate -> list cleared first, or element popped
+                popped = (not ref.seq) and all(pv.popped_from_source(e) for e in ref.elems)
+
+                class Clr(Flow):
+                    def on_call(s, call, st):  # noqa: N805
+                        if call is ref.site:
+                            s.seen.add(st)
+                        if (
+                            isinstance(call.func, ast.Attribute)
+                            and call.func.attr == 'clear'
+                            and isinstance(call.func.value, (ast.Name, ast.Attribute))
+                            and prog.resolve_in(call.func.value, f) == WORKERS
+                        ):
+                            return ('cleared',)
+                        return (st,)
+
+                fl = Clr()
+                fl.seen = set()
+                fl.run(f.node, 'dirty')
+                ok = popped or (fl.seen and fl.seen == {'cleared'})
+                r.check(
+                    ok,
+                    key,
+                    ref.where,
+                    f'inserted value derives from the idle list itself (provenance {kinds}); list cleared on every path before the re-insertion',
+                    f'{norm(ref.site)[:80]} re-inserts hands taken from the idle list without the list having been cleared on every path '
+                    '(a hand would be listed twice and be given two tasks)',
+                )
+            elif kinds == ['S'] and not ref.seq:
+                new_sites.append(ref)
+                ok, det = _gated(model, f, ref.site)
+                r.check(
+                    ok,
+                    key,
+                    ref.where,
+                    det,
+                    f'the hand is put into the idle-worker list although {det}',
+                )
+                ok, det = _absent(model, f, ref.site)
+                r.check(
+                    ok,
+                    key + ':not-listed-yet',
+                    ref.where,
+                    det,
+                    f'{norm(ref.site)[:60]} is {det}: a connection that sends a second register message is listed twice and is given two '
+                    'tasks at once',
+                )
+            else:
+                r.fail(
+                    key,
+                    ref.where,
+                    f'{norm(ref.site)[:80]} inserts a value of unknown provenance into the idle-worker list (neither the registering hand '
+                    f'under the revision test nor hands taken from the list itself; provenance {kinds})',
+                )
+        if not new_sites and not r.findings:
+            raise AnalysisError('no site inserting a newly registered hand into farm._workers was found (registration gate vanished)')
+        for f in {ref.func.qname: ref.func for ref in new_sites}.values():
+            mine = [ref.site for ref in new_sites if ref.func is f]
+
+            class Once(Flow):
+                def on_call(s, call, st):  # noqa: N805
+                    return (min(st + 1, 2),) if any(call is x for x in mine) else (st,)
+
+            o = Once().run(f.node, 0)
+            ends = o.normal | o.ret
+            r.check(
+                bool(ends) and max(ends) <= 1,
+                f'{f.qname}:listed-at-most-once',
+                where(f, mine[0]),
+                'the registering hand is inserted at most once on every path',
+                f'{f.qname} inserts the registering hand into the idle-worker list more than once on some path: it is then given two tasks',
+            )
+        # functions that mutate the list are reactor-atomic: check-then-act inside one function cannot be interleaved
+        for q, f in sorted(mutators.items()):
+            r.instance()
+            r.check(
+                q not in model.thread and not _has_yield(f),
+                f'{q}:reactor-atomic',
+                where(f),
+                'not reachable from a deferToThread root, no yield/await',
+                f'{q} changes the idle-worker list but may run on a pool thread or suspend (yield/await): its test-then-act is not atomic',
+            )
+        # registration handlers: mismatch => abort message + close; overrides keep the gate for every farm mutation
+        for h in _register_handlers(model, new_sites):
+            r.instance()
+            rep.analysed(h)
+            fl = FactFlow(model, h)
+            normal, _exc = exit_states(fl, h)
+            mism = [st for st in normal if fget(st, 'rev') is False]
+            if not fl.msg_params:
+                muts = _farm_mutations(model, h)
+                r.check(
+                    not muts,
+                    f'{h.qname}:revision-gate',
+                    where(h),
+                    'handler changes no farm state',
+                    f'registration handler {h.qname} changes farm state ({norm(muts[0][1].site)[:60] if muts else ""}) without comparing the '
+                    'message revision with dawgie.context.git_rev',
+                )
+                continue
+            bad = [st for st in mism if not (fget(st, 'ev:abort') and fget(st, 'ev:close'))]
+            r.check(
+                bool(mism) and not bad,
+                f'{h.qname}:mismatch-aborts',
+                where(h),
+                f'{len(mism)} exit state(s) with differing revision: abort message sent and connection closed on all of them',
+                f'registration handler {h.qname} can return on the revision-mismatch branch without '
+                + ('a revision-mismatch branch at all' if not mism else 'sending the abort message and closing the connection')
+                + ': the stale worker keeps waiting for work',
+            )
+            for g, mref in _farm_mutations(model, h):
+                if g == WORKERS:
+                    continue  # judged above
+                sts = fl.at.get(id(mref.site), set())
+                r.check(
+                    bool(sts) and all(fget(st, 'rev') is True for st in sts),
+                    f'{h.qname}:{norm(mref.site)[:90]}',
+                    mref.where,
+                    'farm state changed only under the revision equality',
+                    f'{norm(mref.site)[:70]} changes {g} for a registering worker whose revision was not found equal to git_rev',
+                )
+        # status poll: the proceed answer only with equal revision and an active pipeline, abort otherwise
+        for f, call, role in model.sends:
+            if role != 'proceed':
+                continue
+            r.instance()
+            rep.analysed(f)
+            fl = FactFlow(model, f)
+            normal, _exc = exit_states(fl, f)
+            sts = fl.at.get(id(call), set())
+            ok = bool(sts) and all(fget(st, 'rev') is True and fget(st, 'active') is True for st in sts)
+            r.check(
+                ok,
+                f'{f.qname}:{norm(call)[:80]}',
+                where(f, call),
+                'proceed answer sent only with revision equal and is_pipeline_active() true',
+                'the proceed answer to a status poll can be sent '
+                + ('with a differing revision' if any(fget(st, 'rev') is not True for st in sts) else 'while the pipeline is not active')
+                + ' (the worker will deliver a result computed by stale software / into a pipeline that is reloading)',
+            )
+            neg = [st for st in normal if (fget(st, 'rev') is False or fget(st, 'active') is False)]
+            bad = [st for st in neg if not fget(st, 'ev:abort') or fget(st, 'ev:proceed')]
+            r.check(
+                bool(neg) and not bad,
+                f'{f.qname}:poll-negative-aborts',
+                where(f),
+                f'{len(neg)} exit state(s) with differing revision or inactive pipeline: abort answer sent, proceed never',
+                f'{f.qname}: a status poll with a differing revision or an inactive pipeline is not answered with the abort message on every path',
+            )
+        # the abort / proceed answers are what the worker side tests: response with success False / True
+        roles = {role for _f, _c, role in model.sends}
+        r.check(
+            'abort' in roles and 'proceed' in roles,
+            f'{HAND}:answer-messages',
+            mwhere(model.farm, model.hand.node),
+            'abort = make(typ=response, suc=False), proceed = make(typ=response, suc=True)',
+            'the hand no longer owns both an abort (response, success False) and a proceed (response, success True) message',
+            nontrivial=False,
+        )
+
+
+# ---------------------------------------------------------------------------
+# hand-over sites: calls of a method that sends its parameter to the hand (Hand.do), found program-wide
+
+
+class HandOver:
+    __slots__ = ('func', 'call', 'recv', 'task', 'meth', 'rkind', 'tkind', 'resolved')
+
+    def key(self):
+        return f'{self.func.qname}:{norm(self.call)[:100]}'
+
+
+def handovers(model):
+    c = model.__dict__.get('_handovers')
+    if c is not None:
+        return c
+    prog = model.prog
+    names = {}
+    for q, (f, p) in model.send_methods.items():
+        names.setdefault(f.name, []).append((f, p))
+    out = []
+    for f in prog.funcs.values():
+        for call in f.calls():
+            if not (isinstance(call.func, ast.Attribute) and call.func.attr in names):
+                continue
+            sym = prog.callee(call, f)
+            fo = prog.func_of(sym) if sym and not sym.startswith(('local:', 'external:')) else None
+            resolved = fo is not None and fo.qname in model.send_methods
+            if fo is not None and not resolved:
+                continue  # another repository function of the same name
+            cands = [(mf, p) for mf, p in names[call.func.attr] if not resolved or mf is fo]
+            bound = None
+            for mf, p in cands:
+                b = _bind(call, _params(mf))
+                if b is not None and all(x in b for x in _required(mf)):
+                    bound = (mf, p, b)
+                    break
+            if bound is None:
+                continue  # cannot be a call of the send method (arity / keywords differ)
+            h = HandOver()
+            h.func, h.call, h.recv, h.meth, h.resolved = f, call, call.func.value, bound[0], resolved
+            h.task = bound[2][bound[1]]
+            h.rkind = model.prov(f, WORKERS).kind(h.recv)
+            h.tkind = model.prov(f, CLUSTER).kind(h.task)
+            out.append(h)
+    out.sort(key=lambda h: (h.func.qname, _pos(h.call)))
+    model.__dict__['_handovers'] = out
+    return out
+
+
+def _in_region(model, func):
+    """the function works on the idle list or the task queue"""
+    return any(r.func is func for g in (WORKERS, CLUSTER) for r in model.refs(g))
+
+
+# ---------------------------------------------------------------------------
+# R-C11-2
+
+
+class _Member(FactFlow):
+    """membership of `self` in the idle list: fact 'in' True / False / unknown"""
+
+    def __init__(self, model, func, proven):
+        super().__init__(model, func)
+        self.proven = proven
+        self.unknown = []
+
+    def _is_list(self, e):
+        return isinstance(e, (ast.Name, ast.Attribute)) and self.prog.resolve_in(e, self.f) == WORKERS
+
+    def _count_self(self, e):
+        return (
+            isinstance(e, ast.Call)
+            and isinstance(e.func, ast.Attribute)
+            and e.func.attr == 'count'
+            and self._is_list(e.func.value)
+            and len(e.args) == 1
+            and _is_name(e.args[0], 'self')
+        )
+
+    def extra_atom(self, e):
+        return self._atom(e) is not None
+
+    def _atom(self, e):
+        """-> True if the expression is true exactly when self is listed, False when exactly when not listed"""
+        if self._count_self(e):
+            return True
+        if isinstance(e, ast.Compare) and len(e.ops) == 1:
+            a, op, b = e.left, e.ops[0], e.comparators[0]
+            if _is_name(a, 'self') and self._is_list(b):
+                if isinstance(op, ast.In):
+                    return True
+                if isinstance(op, ast.NotIn):
+                    return False
+            for x, y, flip in ((a, b, False), (b, a, True)):
+                if self._count_self(x) and isinstance(y, ast.Constant) and type(y.value) is int:
+                    n = y.value
+                    o = type(op)
+                    if flip:
+                        o = {ast.Lt: ast.Gt, ast.Gt: ast.Lt, ast.LtE: ast.GtE, ast.GtE: ast.LtE}.get(o, o)
+                    # count OP n
+                    if (o, n) in ((ast.Gt, 0), (ast.NotEq, 0), (ast.GtE, 1)):
+                        return True
+                    if (o, n) in ((ast.Eq, 0), (ast.Lt, 1), (ast.LtE, 0)):
+                        return False
+        return None
+
+    def test(self, e, st):
+        a = self._atom(e)
+        if a is None:
+            return None
+        t, f = fsplit(st, 'in')
+        return (t, f) if a else (f, t)
+
+    def call(self, call, st):
+        fn = call.func
+        if isinstance(fn, ast.Attribute) and self._is_list(fn.value):
+            if fn.attr == 'clear':
+                return (fput(st, 'in', False),)
+            if fn.attr in ('remove', 'discard') and len(call.args) == 1 and _is_name(call.args[0], 'self'):
+                return (fput(st, 'in', None),)  # one occurrence removed: membership unknown again
+            if fn.attr in ('count', 'index', 'copy', 'sort', 'reverse'):
+                return (st,)
+            self.unknown.append(call)
+            return (fput(st, 'in', None),)
+        # delegation to an already proven connectionLost (super().m(...) or Base.m(self, ...))
+        if isinstance(fn, ast.Attribute) and fn.attr == self.f.name:
+            tgt = None
+            if isinstance(fn.value, ast.Call) and _is_name(fn.value.func, 'super') and self.f.cls is not None:
+                for b in self.f.cls.bases:
+                    tgt = tgt or self.prog.method(b, fn.attr)
+            else:
+                sym = self.prog.callee(call, self.f)
+                fo = self.prog.func_of(sym) if sym else None
+                if fo is not None and call.args and _is_name(call.args[0], 'self'):
+                    tgt = fo
+            if tgt is not None and tgt.qname in self.proven:
+                return (fput(st, 'in', False),)
+        return (st,)
+
+
+def _rule2(model, rep):
+    prog = model.prog
+    with rep.rule(
+        'R-C11-2',
+        'a hand that lost its connection is in the idle list no more (all occurrences, every path); a task is handed only to a hand '
+        'popped from the idle list; nothing but abort / proceed / wait / the handed task is ever written to a hand',
+        floor=10,
+        breaks='a task message is written to a worker that disconnected (the task is lost) or to one that already holds a task',
+    ) as r:
+        # (a) connectionLost of every class of the hierarchy
+        proven = set()
+        seen = set()
+        for cq in model.hier:
+            meth = prog.method(cq, 'connectionLost')
+            r.instance()
+            if meth is None:
+                r.fail(f'{cq}:connectionLost', mwhere(prog.classes[cq].module, prog.classes[cq].node), f'{cq} has no connectionLost: a disconnected hand stays in the idle list')
+                continue
+            if meth.qname in seen:
+                r.ok(f'{cq}:connectionLost', f'inherits {meth.qname}', where(meth), nontrivial=False)
+                continue
+            seen.add(meth.qname)
+            rep.analysed(meth)
+            fl = _Member(model, meth, proven)
+            normal, exc = exit_states(fl, meth)
+            bad = [st for st in normal | exc if fget(st, 'in') is not False]
+            ok = bool(normal) and not bad and not fl.unknown
+            if ok:
+                proven.add(meth.qname)
+            r.check(
+                ok,
+                f'{meth.qname}:hand-removed',
+                where(meth, fl.unknown[0] if fl.unknown else None),
+                f'self is known absent from the idle list on all {len(normal)} exit state(s)',
+                f'{meth.qname} can return with the hand still (or again) in the idle-worker list'
+                + (f' (operation not understood: {norm(fl.unknown[0])[:60]})' if fl.unknown else ' (not every occurrence is removed on every path)')
+                + ': the next dispatch writes a task to a closed connection',
+            )
+        # (b) hand-over sites
+        hos = handovers(model)
+        r.extra['send_methods'] = sorted(model.send_methods)
+        if not model.send_methods:
+            raise AnalysisError('no method of the Hand hierarchy sends a task parameter to the hand (Hand.do vanished)')
+        for h in hos:
+            f = h.func
+            if h.rkind != 'W' and not h.resolved and not _in_region(model, f):
+                continue  # same-named call on something that is not a hand, outside the farm's lists
+            r.instance()
+            rep.analysed(f)
+            pv = model.prov(f, WORKERS)
+            if h.rkind == 'W':
+                ok = pv.popped_from_source(h.recv)
+                r.check(
+                    ok,
+                    h.key(),
+                    where(f, h.call),
+                    'receiver is the result of <idle list>.pop(...): the hand leaves the idle list with the task',
+                    f'{norm(h.call)[:80]}: the task is written to a hand that stays in the idle-worker list ({norm(h.recv)[:40]} is read, not '
+                    'popped): the same worker is given the next task as well',
+                )
+            else:
+                r.fail(
+                    h.key(),
+                    where(f, h.call),
+                    f'{norm(h.call)[:80]} hands a task to {norm(h.recv)[:40]}, which is not taken from the idle-worker list '
+                    f'(provenance {h.rkind}): eligibility of the receiver is not established',
+                )
+        if not any(h.rkind == 'W' for h in hos):
+            raise AnalysisError('no hand-over of a task to a hand taken from the idle list was found (dispatch changed shape)')
+        # (c) the send method writes its parameter on every path
+        for q, (f, p) in sorted(model.send_methods.items()):
+            r.instance()
+            rep.analysed(f)
+            fl = FactFlow(model, f)
+            normal, _exc = exit_states(fl, f)
+            bad = [st for st in normal if not fget(st, 'ev:param')]
+            r.check(
+                bool(normal) and not bad,
+                f'{q}:sends-its-task',
+                where(f),
+                f'message.send({p}, self) on every path',
+                f'{q} can return without writing the task {p} to the worker: the task was already taken from the queue and is lost',
+            )
+        # (d) closed world of what is written to a hand
+        allowed = {'abort', 'proceed', 'wait', 'response'}
+        for f, call, role in model.sends:
+            r.instance()
+            rep.analysed(f)
+            if isinstance(role, tuple):
+                ok = f.qname in model.send_methods
+                det = f'parameter {role[1]} of the hand-over method'
+            else:
+                ok = role in allowed
+                det = f'{role} message'
+            r.check(
+                ok,
+                f'{f.qname}:{norm(call)[:90]}',
+                where(f, call),
+                det,
+                f'{norm(call)[:80]} writes a message of kind "{role if not isinstance(role, tuple) else "parameter"}" to the worker outside the hand-over method: '
+                'it is not covered by the eligibility and activity gates',
+                nontrivial=False,
+            )
+
+
+# ---------------------------------------------------------------------------
+# R-C11-3
+
+
+def pred_implies_active(model, func, _stack=()):
+    """a truthy result of the repository predicate func implies that is_pipeline_active() was tested true: (bool, detail)"""
+    c = model.__dict__.setdefault('_pred', {})
+    if func.qname in c:
+        return c[func.qname]
+    if func.qname in _stack or len(_stack) > 3:
+        return False, 'recursive predicate'
+    c[func.qname] = (False, 'recursive predicate')
+    fl = GateFlow(model, func, _stack + (func.qname,))
+    o = fl.run(func.node, frozenset())
+    truthy = []
+    for node, st in fl.rets:
+        if node.value is None or _const(node.value, None, False, 0):
+            continue
+        if isinstance(node.value, ast.Constant):
+            truthy.append(st)
+        else:
+            sub = GateFlow(model, func, _stack + (func.qname,))
+            t, _f = sub.cond(node.value, {st})
+            truthy.extend(t)
+    if not truthy:
+        res = (False, 'never returns a true value')
+    else:
+        bad = [st for st in truthy if fget(st, 'active') is not True]
+        res = (not bad, f'{len(truthy)} true-returning state(s), all after is_pipeline_active() tested true' if not bad else 'returns a true value on a path where is_pipeline_active() was not tested true')
+    if o.normal:
+        pass  # falling off the end returns None (false)
+    c[func.qname] = res
+    return res
+
+
+class GateFlow(FactFlow):
+    """activity and emptiness facts along the paths of a dispatching function.
+
+    facts: active True/False (is_pipeline_active tested), fired <trigger> (an FSM trigger was fired since),
+    ('empty', G) True for farm containers known empty.
+    """
+
+    def __init__(self, model, func, stack=()):
+        super().__init__(model, func)
+        self.stack = stack
+
+    # ---- helpers
+    def glob(self, e):
+        if isinstance(e, (ast.Name, ast.Attribute)):
+            s = self.prog.resolve_in(e, self.f)
+            if s and s.startswith(FARM + '.') and s in self.m.farm_containers():
+                return s
+        return None
+
+    def is_empty(self, g, st):
+        return bool(fget(st, ('empty', g)))
+
+    def len_of(self, e):
+        """len(G) / G -> G"""
+        if isinstance(e, ast.Call) and _is_name(e.func, 'len') and len(e.args) == 1:
+            return self.glob(e.args[0])
+        return self.glob(e)
+
+    def bounds(self, e, depth=3):
+        """farm containers G with value(e) <= len(G)"""
+        e2 = _deref(self.f, e) if depth else e
+        if isinstance(e2, ast.Call) and _is_name(e2.func, 'len') and len(e2.args) == 1:
+            g = self.glob(e2.args[0])
+            return {g} if g else set()
+        if isinstance(e2, ast.Call) and _is_name(e2.func, 'min') and e2.args and not e2.keywords:
+            args = e2.args[0].elts if len(e2.args) == 1 and isinstance(e2.args[0], (ast.List, ast.Tuple)) else e2.args
+            out = set()
+            for a in args:
+                out |= self.bounds(a, depth - 1) if depth else set()
+            return out
+        if isinstance(e2, ast.IfExp) and depth:
+            return self.bounds(e2.body, depth - 1) & self.bounds(e2.orelse, depth - 1)
+        return set()
+
+    def iter_empty(self, it, st):
+        e = it
+        while isinstance(e, ast.Call) and (
+            (isinstance(e.func, ast.Name) and e.func.id in SEQ_COPY | {'enumerate'} and e.args)
+            or (isinstance(e.func, ast.Attribute) and e.func.attr == 'copy' and not e.args)
+        ):
+            e = e.args[0] if isinstance(e.func, ast.Name) else e.func.value
+        g = self.glob(e)
+        if g is not None:
+            return self.is_empty(g, st)
+        if isinstance(e, ast.Call) and _is_name(e.func, 'range') and len(e.args) == 1:
+            return any(self.is_empty(g, st) for g in self.bounds(e.args[0]))
+        return False
+
+    # ---- atoms
+    def extra_atom(self, e):
+        if isinstance(e, ast.Call):
+            sym = self.prog.callee(e, self.f)
+            fo = self.prog.func_of(sym) if sym and not sym.startswith(('local:', 'external:')) else None
+            return fo is not None and fo.qname not in self.stack and pred_implies_active(self.m, fo, self.stack)[0]
+        return False
+
+    def test(self, e, st):
+        if isinstance(e, ast.Call):
+            if self.extra_atom(e):
+                cur = fget(st, 'active')
+                t = () if cur is False else (fput(st, 'active', True),)
+                return t, (st,)
+            # sum([len(A), len(B), ...]) is zero only when every list is empty
+            if _is_name(e.func, 'sum') and len(e.args) == 1 and isinstance(e.args[0], (ast.List, ast.Tuple)):
+                gs = [self.len_of(x) for x in e.args[0].elts]
+                f = st
+                for g in gs:
+                    if g:
+                        f = fput(f, ('empty', g), True)
+                t = () if gs and all(g and self.is_empty(g, st) for g in gs) else (st,)
+                return t, (f,)
+        g = self.len_of(e)
+        if g is not None:
+            t = () if fget(st, ('empty', g)) else (st,)
+            return t, (fput(st, ('empty', g), True),)
+        if isinstance(e, ast.Compare) and len(e.ops) == 1 and _const(e.comparators[0], 0):
+            g = self.len_of(e.left)
+            if g is not None and isinstance(e.ops[0], (ast.Gt, ast.NotEq, ast.Eq)):
+                t = () if fget(st, ('empty', g)) else (st,)
+                f = (fput(st, ('empty', g), True),)
+                return (f, t) if isinstance(e.ops[0], ast.Eq) else (t, f)
+        return None
+
+    # ---- effects
+    def call(self, call, st):
+        fn = call.func
+        sym = self.prog.callee(call, self.f)
+        if sym and sym.startswith(FSMQ + '.') and sym.endswith('_trigger'):
+            return (fput(fput(st, 'active', None), 'fired', sym.rsplit('.', 1)[1]),)
+        if isinstance(fn, ast.Attribute):
+            g = self.glob(fn.value)
+            if g is None and isinstance(fn.value, ast.IfExp):
+                gs = [x for x in (self.glob(fn.value.body), self.glob(fn.value.orelse)) if x]
+                if gs and fn.attr in GROW:
+                    for x in gs:
+                        st = fput(st, ('empty', x), None)
+                    return (st,)
+            if g is not None:
+                if fn.attr == 'clear':
+                    return (fput(st, ('empty', g), True),)
+                if fn.attr in GROW_SEQ and len(call.args) == 1:
+                    h = self.glob(call.args[0])
+                    if h is not None and self.is_empty(h, st):
+                        return (st,)
+                    return (fput(st, ('empty', g), None),)
+                if fn.attr in GROW:
+                    return (fput(st, ('empty', g), None),)
+                return (st,)
+        # calls into the repository (and callbacks handed over) may grow farm containers
+        tgts = [sym] if sym else []
+        for a in list(call.args) + [k.value for k in call.keywords]:
+            if isinstance(a, (ast.Name, ast.Attribute)):
+                s = self.prog.resolve_in(a, self.f)
+                if s and self.prog.func_of(s) is not None and s not in self.prog.classes:
+                    tgts.append(s)
+        for s in tgts:
+            fo = self.prog.func_of(s) if not s.startswith(('local:', 'external:')) else None
+            if fo is not None:
+                for g in self.m.may_grow(fo.qname):
+                    st = fput(st, ('empty', g), None)
+        return (st,)
+
+    def on_for(self, node, st):
+        if self.iter_empty(node.iter, st):
+            return ()
+        return super().on_for(node, st)
+
+
+_KEEP = ('active', 'fired')
+
+
+def _portable(st):
+    return frozenset((k, v) for k, v in st if k in _KEEP or (isinstance(k, tuple) and k[0] == 'empty'))
+
+
+def gate_run(model, func, depth=2):
+    """GateFlow over func started from the facts that hold at its call sites (unknown for callback entries)"""
+    c = model.__dict__.setdefault('_gate', {})
+    if func.qname in c:
+        return c[func.qname]
+    init = set()
+    edges = model.cg.callers(func.qname)
+    if not edges or depth == 0:
+        init.add(frozenset())
+    for e in edges:
+        if depth == 0:
+            break
+        if e.kind != DIRECT or e.src is None or e.src is func:
+            init.add(frozenset())
+            continue
+        fl = gate_run(model, e.src, depth - 1)
+        sts = fl.at.get(id(e.call), set())
+        init |= {_portable(st) for st in sts} or {frozenset()}
+    fl = GateFlow(model, func)
+    fl.out = fl.run(func.node, init)
+    c[func.qname] = fl
+    return fl
+
+
+class _Notify(FactFlow):
+    """Hand.notify(keep): facts ('b', keep) truthiness of keep, ('none', keep), 'entry_none', 'keep_is_active'"""
+
+    def __init__(self, model, func, keep):
+        super().__init__(model, func)
+        self.keep = keep
+
+    def extra_atom(self, e):
+        return self._none(e) is not None
+
+    def _none(self, e):
+        if isinstance(e, ast.Compare) and len(e.ops) == 1 and _is_name(e.left, self.keep) and _const(e.comparators[0], None):
+            if isinstance(e.ops[0], (ast.Is, ast.Eq)):
+                return True
+            if isinstance(e.ops[0], (ast.IsNot, ast.NotEq)):
+                return False
+        return None
+
+    def test(self, e, st):
+        n = self._none(e)
+        if n is None:
+            return None
+        t, f = fsplit(st, ('none', self.keep))
+        t = tuple(fput(fput(x, ('b', self.keep), False), 'entry_none', True) for x in t if fget(x, ('b', self.keep)) is not True)
+        return (t, f) if n else (f, t)
+
+    def assigned(self, s, name, st):
+        if name == self.keep:
+            v = s.value if isinstance(s, ast.Assign) else None
+            st = fput(st, 'keep_is_active', True if (v is not None and self.active_call(v)) else None)
+            if fget(st, 'keep_is_active'):
+                # keep now equals the activity just read
+                st = fput(st, ('b', name), fget(st, 'active'))
+                st = fput(st, 'active', None)
+        return st
+
+
+def _dot_edges(model):
+    path = os.path.join(model.prog.root, 'pl', 'state.dot')
+    if not os.path.exists(path):
+        return None
+    with open(path, 'rt', encoding='utf-8') as fh:
+        txt = fh.read()
+    txt = re.sub(r'/\*.*?\*/', '', txt, flags=re.S)
+    edges = []
+    for m in re.finditer(r'(\w+)\s*->\s*(\w+)\s*\[(.*?)\]', txt, flags=re.S):
+        attrs = dict(re.findall(r'(\w+)\s*=\s*("(?:[^"\\]|\\.)*"|[^,\]\s]+)', m.group(3)))
+        edges.append({'src': m.group(1), 'dst': m.group(2), **{k: v.strip('"') for k, v in attrs.items()}})
+    return edges
+
+
+def _rule3(model, rep):
+    prog, cg = model.prog, model.cg
+    with rep.rule(
+        'R-C11-3',
+        'the hand-over of a task is reached only after a true is_pipeline_active() test (through the dispatch predicate) and, once a '
+        'life-cycle trigger was fired, only with nothing left to hand over; an inactive pipeline answers every waiting hand with the '
+        'abort message, closes it and drops it from the idle list; the reload callback notifies all hands while inactive',
+        floor=4,
+        breaks='a task message is written to a worker while the pipeline is loading / archiving / updating, or waiting workers are '
+        'never told to leave and keep a stale registration',
+    ) as r:
+        # (a) activity gate at every hand-over site
+        sites = [h for h in handovers(model) if h.rkind == 'W']
+        for h in sites:
+            r.instance()
+            f = h.func
+            while f.parent is not None:
+                f = f.parent
+            fl = gate_run(model, f) if f is h.func else None
+            if fl is None:
+                r.fail(h.key(), where(h.func, h.call), 'hand-over inside a nested function: the entry facts cannot be established')
+                continue
+            sts = fl.at.get(id(h.call), set())
+            r.extra['gate_states_visited'] = fl.visited
+            live = list(sts)
+            bad = [st for st in live if not (fget(st, 'active') is True and not fget(st, 'fired'))]
+            if bad:
+                fired = sorted({fget(st, 'fired') for st in bad if fget(st, 'fired')})
+                msg = (
+                    f'{norm(h.call)[:70]} is reachable after {"/".join(fired)}() was fired in the same pass with a task queue that is not known '
+                    'to be empty: a task is written to a worker while the pipeline is leaving the running state'
+                    if fired
+                    else f'{norm(h.call)[:70]} is reachable on a path on which is_pipeline_active() was not tested true '
+                    '(the activity predicate of the dispatcher does not dominate it)'
+                )
+                r.fail(h.key() + ':active', where(h.func, h.call), msg)
+            else:
+                r.ok(
+                    h.key() + ':active',
+                    f'{len(live)} abstract state(s) at the hand-over, all with is_pipeline_active() tested true and no trigger fired since',
+                    where(h.func, h.call),
+                )
+            if not sts:
+                r.fail(h.key() + ':reached', where(h.func, h.call), 'hand-over site not reached by the path analysis')
+        # (b) the dispatch predicate
+        preds = sorted(q for q, v in model.__dict__.get('_pred', {}).items() if v[0])
+        for q in preds:
+            r.instance()
+            rep.analysed(prog.funcs[q])
+            r.ok(f'{q}:true-implies-active', model._pred[q][1], where(prog.funcs[q]))
+        # (c) notify: keep false => abort + close; wait only when kept; keep defaults to the live activity
+        notifies = {}
+        for fq, call, role in [(f, c, ro) for f, c, ro in model.sends if ro == 'wait']:
+            g = fq
+            while g.parent is not None:
+                g = g.parent
+            notifies[g.qname] = g
+        for cq in model.hier:  # public anchor named by the design, also when it stopped sending the wait message
+            g = prog.method(cq, 'notify')
+            if g is not None:
+                notifies[g.qname] = g
+        if not notifies:
+            raise AnalysisError('no method of the Hand hierarchy sends the wait message and Hand.notify is gone')
+        notify_names = set()
+        for q, f in sorted(notifies.items()):
+            r.instance()
+            rep.analysed(f)
+            ps = _params(f)
+            if len(ps) != 1:
+                r.fail(f'{q}:keep-parameter', where(f), f'{q} no longer takes exactly the keep flag')
+                continue
+            keep = ps[0]
+            notify_names.add(f.name)
+            fl = _Notify(model, f, keep)
+            o = fl.run(f.node, frozenset())
+            normal = o.normal | o.ret
+            kb = ('b', keep)
+            undecided = [st for st in normal if fget(st, kb) is None]
+            drop = [st for st in normal if fget(st, kb) is False]
+            bad_drop = [st for st in drop if not (fget(st, 'ev:abort') and fget(st, 'ev:close'))]
+            bad_wait = [st for st in normal if fget(st, 'ev:wait') and fget(st, kb) is not True]
+            bad_none = [st for st in normal if fget(st, 'entry_none') and not fget(st, 'keep_is_active')]
+            r.check(
+                bool(drop) and not bad_drop and not undecided,
+                f'{q}:not-kept-aborted-and-closed',
+                where(f),
+                f'{len(drop)} exit state(s) with keep false: abort message sent and connection closed on all',
+                f'{q} can return with keep false without having sent the abort message and closed the connection '
+                '(a waiting worker is not told to leave)' if not undecided else f'{q} returns on a path that never tests keep',
+            )
+            r.check(
+                not bad_wait,
+                f'{q}:wait-only-when-kept',
+                where(f),
+                'the wait message is sent only with keep true',
+                f'{q} sends the wait message although keep is false: the worker keeps waiting on an inactive pipeline',
+            )
+            r.check(
+                not bad_none,
+                f'{q}:default-is-live-activity',
+                where(f),
+                'keep=None is replaced by is_pipeline_active()',
+                f'{q}: keep=None is not replaced by the result of is_pipeline_active()',
+            )
+            rv = [n for n, _st in fl.rets if not _is_name(n.value, keep)]
+            r.check(
+                bool(fl.rets) and not rv and not o.normal,
+                f'{q}:returns-keep',
+                where(f, rv[0] if rv else None),
+                'returns the keep flag (the caller filters the idle list with it)',
+                f'{q} does not return the keep flag on every path: notify_all keeps or drops the wrong hands',
+                nontrivial=False,
+            )
+        # (d) notify_all-like functions: every idle hand is notified with the live activity and only kept hands are re-inserted
+        n_all = 0
+        for ref in model.refs(WORKERS):
+            if ref.op != 'grow' or ref.func is None:
+                continue
+            f = ref.func
+            ncalls = [c for c in f.calls() if isinstance(c.func, ast.Attribute) and c.func.attr in notify_names]
+            if not ncalls:
+                continue
+            n_all += 1
+            r.instance()
+            rep.analysed(f)
+            src = _deref(f, ref.elems[0]) if ref.elems else None
+            while isinstance(src, ast.Call) and isinstance(src.func, ast.Name) and src.func.id in SEQ_COPY and len(src.args) == 1:
+                src = _deref(f, src.args[0])
+            pv = model.prov(f, WORKERS)
+            var = pred = it = None
+            if isinstance(src, ast.Call) and _is_name(src.func, 'filter') and len(src.args) == 2 and isinstance(src.args[0], ast.Lambda):
+                lam = src.args[0]
+                if len(lam.args.args) >= 1:
+                    var, pred, it = lam.args.args[0].arg, [lam.body], src.args[1]
+            elif isinstance(src, (ast.ListComp, ast.GeneratorExp, ast.SetComp)) and len(src.generators) == 1:
+                g = src.generators[0]
+                if isinstance(g.target, ast.Name) and _is_name(src.elt, g.target.id):
+                    var, pred, it = g.target.id, list(g.ifs), g.iter
+            conj = []
+            for p in pred or []:
+                conj += p.values if isinstance(p, ast.BoolOp) and isinstance(p.op, ast.And) else [p]
+            ncall = [
+                c
+                for c in conj
+                if isinstance(c, ast.Call) and isinstance(c.func, ast.Attribute) and c.func.attr in notify_names and _is_name(c.func.value, var)
+            ]
+            whole = it is not None and isinstance(it, (ast.Name, ast.Attribute)) and prog.resolve_in(it, f) == WORKERS
+            r.check(
+                bool(ncall) and whole,
+                f'{f.qname}:kept-hands-only',
+                ref.where,
+                f'idle list rebuilt from the hands of the whole list whose {sorted(notify_names)[0]}() returned true',
+                f'{f.qname}: the hands put back by {norm(ref.site)[:60]} are not exactly those elements of the whole idle list for which '
+                'notify() returned true (hands whose connection was closed stay listed, or some hands are never notified)',
+            )
+            for c in ncall:
+                a = c.args[0] if c.args else (c.keywords[0].value if c.keywords else None)
+                a2 = _deref(f, a) if a is not None else None
+                live = a is None or _const(a, None) or (isinstance(a2, ast.Call) and prog.callee(a2, f) == ACTIVE)
+                r.check(
+                    live,
+                    f'{f.qname}:{norm(c)[:60]}:live-activity',
+                    where(f, c),
+                    'keep is the result of is_pipeline_active() read in this call (or left to notify)',
+                    f'{norm(c)[:60]}: the keep flag is not the current result of is_pipeline_active()',
+                )
+        if not n_all:
+            raise AnalysisError('no function rebuilding the idle list from notify() results found (notify_all vanished)')
+        # (e) the reload callback tells every hand to leave: notify_all is called while the pipeline is not active
+        load = prog.func(FSMQ + '.load')
+        rep.analysed(load)
+        r.instance()
+        nall = {ref.func.qname for ref in model.refs(WORKERS) if ref.op == 'grow' and ref.func is not None and any(
+            isinstance(c.func, ast.Attribute) and c.func.attr in notify_names for c in ref.func.calls())}
+        status_active = 'dawgie.pl.state.Status.active'
+        clearers = {ref.func.qname for ref in model.refs(WORKERS) if ref.op == 'shrink' and ref.method == 'clear' and ref.func is not None} - nall
+
+        class Load(Flow):
+            def __init__(s):  # noqa: N805
+                super().__init__()
+                s.calls = []
+
+            def on_test(s, e, st):  # noqa: N805
+                if isinstance(e, ast.Attribute) and _is_name(e.value, 'self') and e.attr.endswith('doctest'):
+                    return (fput(st, 'doctest', True),), (fput(st, 'doctest', False),)
+                return (st,), (st,)
+
+            def on_stmt(s, stmt, st):  # noqa: N805
+                if isinstance(stmt, ast.Assign):
+                    for t in stmt.targets:
+                        if isinstance(t, ast.Attribute) and _is_name(t.value, 'self') and t.attr == 'transitioning':
+                            v = prog.resolve_in(stmt.value, load) if isinstance(stmt.value, (ast.Name, ast.Attribute)) else None
+                            st = fput(st, 'inactive', True if (v and v.startswith('dawgie.pl.state.Status.') and v != status_active) else None)
+                return (st,)
+
+            def on_call(s, call, st):  # noqa: N805
+                sym = prog.callee(call, load)
+                if sym in nall:
+                    s.calls.append((call, st))
+                    return (fput(st, 'notified', True),)
+                fo = prog.func_of(sym) if sym and not sym.startswith(('local:', 'external:')) else None
+                if fo is not None and clearers & cg.reachable([fo.qname], kinds={DIRECT}):
+                    return (fput(st, 'emptied', norm(call)[:40]),)
+                if sym and sym.startswith(FSMQ + '.') and sym.endswith('_trigger'):
+                    return (fput(st, 'inactive', None),)
+                return (st,)
+
+        fl = Load()
+        o = fl.run(load.node, frozenset())
+        liveexits = [st for st in o.normal | o.ret if fget(st, 'doctest') is not True]
+        missing = [st for st in liveexits if not fget(st, 'notified')]
+        edges = _dot_edges(model) or []
+        into = [e for e in edges if load.name in (e.get('after'),)]
+        by_dot = bool(into) and all(e.get('dest', e['dst']) != 'running' for e in into) and not any(load.name == e.get('before') for e in edges)
+        by_flag = bool(fl.calls) and all(fget(st, 'inactive') for _c, st in fl.calls)
+        emptied = sorted({fget(st, 'emptied') for _c, st in fl.calls if fget(st, 'emptied')})
+        r.check(
+            not emptied,
+            f'{load.qname}:hands-notified-before-the-estate-is-cleared',
+            where(load, fl.calls[0][0] if fl.calls else None),
+            'no call that empties the idle list precedes notify_all',
+            f'{load.qname} empties the idle-worker list ({", ".join(emptied)}) before notify_all is called: the waiting workers are forgotten without '
+            'having been told to leave',
+        )
+        r.extra['load_is_after_callback_of'] = [f"{e['src']}->{e['dst']}" for e in into]
+        r.check(
+            bool(liveexits) and not missing and (by_dot or by_flag),
+            f'{load.qname}:notifies-all-while-inactive',
+            where(load, fl.calls[0][0] if fl.calls else None),
+            'every non-doctest path calls notify_all; pipeline inactive there: '
+            + ('transitioning set to a non-active status before the call' if by_flag else '')
+            + ('; ' if by_flag and by_dot else '')
+            + (f'load is the after-callback of {len(into)} edge(s), none into running' if by_dot else ''),
+            f'{load.qname} does not call notify_all on every (non-doctest) path'
+            if missing or not liveexits
+            else f'{load.qname} calls notify_all while the pipeline may count as active (neither transitioning set to a non-active status before '
+            'the call nor an after-callback of edges that all leave running): waiting workers are told to wait instead of to leave',
+        )
+
+
+# ---------------------------------------------------------------------------
+# R-C11-4
+
+
+def _conjuncts(e):
+    if isinstance(e, ast.BoolOp) and isinstance(e.op, ast.And):
+        out = []
+        for v in e.values:
+            out += _conjuncts(v)
+        return out
+    return [e]
+
+
+def _rule4(model, rep):
+    prog = model.prog
+    with rep.rule(
+        'R-C11-4',
+        'the hand-over takes one hand and one task per step and is bounded by the length of both lists; the task queue shrinks only by '
+        'a hand-over (or the whole-estate reset of a reload)',
+        floor=2,
+        breaks='with more tasks than hands (or the reverse) the dispatcher raises in the middle of a pass: the periodic dispatch stops, '
+        'a hand or a task already popped is lost; or queued tasks disappear without having been sent',
+    ) as r:
+        sites = [h for h in handovers(model) if h.rkind == 'W']
+        handed = set()
+        for h in sites:
+            r.instance()
+            f = h.func
+            gf = GateFlow(model, f)
+            pvc = model.prov(f, CLUSTER)
+            # the task comes out of the queue (popped), not read from it
+            t_ok = h.tkind == 'W' and pvc.popped_from_source(h.task)
+            if t_ok:
+                handed.add(id(_deref(f, h.task)))
+            r.check(
+                t_ok,
+                h.key() + ':task-popped',
+                where(f, h.call),
+                'the handed task is the result of <task queue>.pop(...)',
+                f'{norm(h.call)[:80]}: the task handed over is not popped from the task queue (provenance {h.tkind}): it stays queued and is '
+                'sent again, or it never was a queued task',
+            )
+            # enclosing loop / guard
+            loop = guard = None
+            for anc, child in model.ancestors(f.module, h.call):
+                if anc is f.node:
+                    break
+                if isinstance(anc, (ast.For, ast.While)) and loop is None and any(child is s for s in anc.body):
+                    loop = anc
+                    if isinstance(anc, ast.While):
+                        guard = anc
+                    break
+                if isinstance(anc, ast.If) and guard is None and any(child is s for s in anc.body):
+                    guard = anc
+            need = {WORKERS, CLUSTER}
+            have = set()
+            how = 'no bound found'
+            if isinstance(loop, ast.For) and isinstance(loop.iter, ast.Call) and _is_name(loop.iter.func, 'range') and len(loop.iter.args) == 1:
+                n = loop.iter.args[0]
+                have = gf.bounds(n)
+                how = f'for ... in range({norm(n)[:50]})'
+                if isinstance(n, ast.Name):
+                    # the bound was computed earlier: no other shrink of either list may exist in the function
+                    others = [
+                        x
+                        for g in need
+                        for x in model.refs(g)
+                        if x.func is f and x.op == 'shrink' and not any(x.site is y for y in ast.walk(h.call))
+                    ]
+                    if others:
+                        have = set()
+                        how += f' computed before {norm(others[0].site)[:40]}'
+            elif guard is not None:
+                for c in _conjuncts(guard.test):
+                    g = gf.len_of(c)
+                    if g is None and isinstance(c, ast.Compare) and len(c.ops) == 1 and _const(c.comparators[0], 0) and isinstance(c.ops[0], (ast.Gt, ast.NotEq)):
+                        g = gf.len_of(c.left)
+                    if g:
+                        have.add(g)
+                how = f'{"while" if isinstance(guard, ast.While) else "if"} {norm(guard.test)[:50]}'
+            r.check(
+                need <= have,
+                h.key() + ':bounded-by-both-lists',
+                where(f, loop or guard or h.call),
+                f'{how}: steps <= len(idle list) and <= len(task queue)',
+                f'the hand-over {norm(h.call)[:60]} is repeated under "{how}", which does not bound the number of steps by '
+                + ' and '.join(sorted(x.rsplit(".", 1)[1] for x in need - have))
+                + ': the surplus step pops from an empty list and the dispatcher dies with tasks / hands in an inconsistent state',
+            )
+            # one pop of each list per step, on every path of the loop body
+            body = loop.body if loop is not None else (guard.body if guard is not None else [])
+
+            class Cnt(Flow):
+                def on_call(s, call, st):  # noqa: N805
+                    fn = call.func
+                    if isinstance(fn, ast.Attribute) and fn.attr in ('pop', 'popleft', 'remove', 'clear') and isinstance(fn.value, (ast.Name, ast.Attribute)):
+                        g = prog.resolve_in(fn.value, f)
+                        if g == WORKERS:
+                            return ((min(st[0] + 1, 2), st[1]),)
+                        if g == CLUSTER:
+                            return ((st[0], min(st[1] + 1, 2)),)
+                    return (st,)
+
+            cf = Cnt()
+            o = cf.block(body, {(0, 0)})
+            ends = o.normal | o.cont | o.brk | o.ret
+            r.check(
+                bool(ends) and all(a <= 1 and b <= 1 for a, b in ends),
+                h.key() + ':one-pop-per-step',
+                where(f, h.call),
+                f'at most one pop of each list per step ({sorted(ends)})',
+                f'a step of the hand-over loop removes more than one element from the idle list or the task queue ({sorted(ends)}): the bound '
+                'no longer covers the pops',
+            )
+        # who may shrink the task queue
+        for ref in model.refs(CLUSTER):
+            if ref.op not in ('shrink', 'escape', 'unknown-method') and not (ref.op == 'grow' and ref.method in ('rebind', '__setitem__')):
+                continue
+            r.instance()
+            if ref.func is not None:
+                rep.analysed(ref.func)
+            key = ref.key()
+            if ref.op == 'shrink' and ref.method in ('pop', 'popleft') and id(ref.site) in handed:
+                r.ok(key, 'popped task is the argument of the hand-over', ref.where)
+            elif ref.op == 'shrink' and ref.method == 'clear' and ref.func is not None:
+                # accepted idiom: whole-estate reset (also clears the idle list), called only from FSM callbacks (reload)
+                f = ref.func
+                also = any(x.func is f and x.op == 'shrink' and x.method == 'clear' for x in model.refs(WORKERS))
+                callers = model.cg.callers(f.qname)
+                only_fsm = bool(callers) and all(e.src is not None and e.src.qname.startswith(FSMQ + '.') and e.kind == DIRECT for e in callers)
+                r.check(
+                    also and only_fsm,
+                    key,
+                    ref.where,
+                    f'whole-estate reset, called only from {sorted({e.src.qname for e in callers})}',
+                    f'{norm(ref.site)} in {f.qname} drops every queued task'
+                    + ('' if also else ' outside a whole-estate reset')
+                    + ('' if only_fsm else f' and is reachable from {sorted({e.src.qname if e.src else "?" for e in callers}) or "nowhere known"} (not only the reload callback)'),
+                )
+            else:
+                r.fail(
+                    key,
+                    ref.where,
+                    f'{norm(ref.site)[:80]} ({ref.op}/{ref.method}) takes tasks out of the queue (or replaces it) without handing them to a worker: '
+                    'tasks that could not be placed do not stay queued',
+                )
+
+
+# ---------------------------------------------------------------------------
+# R-C11-5
+
+
+def _factory_members(model):
+    c = model.prog.cls(FACTORIES)
+    out = []
+    for s in c.node.body:
+        if isinstance(s, ast.Assign) and len(s.targets) == 1 and isinstance(s.targets[0], ast.Name):
+            out.append(s.targets[0].id)
+    return out
+
+
+def _job_get(e, key):
+    """<name>.get('<key>'[, default]) -> (name, default expr or None) else None"""
+    if (
+        isinstance(e, ast.Call)
+        and isinstance(e.func, ast.Attribute)
+        and e.func.attr == 'get'
+        and isinstance(e.func.value, ast.Name)
+        and e.args
+        and _const(e.args[0], key)
+    ):
+        return e.func.value.id, (e.args[1] if len(e.args) > 1 else None)
+    return None
+
+
+class _Kind(FactFlow):
+    """which factory kind a path of the dispatcher is handling: fact 'kind' = member name, ('not', member) = excluded"""
+
+    def __init__(self, model, func, members):
+        super().__init__(model, func)
+        self.members = members
+
+    def _atom(self, e):
+        """<j.get('factory').__name__ copy> ==/!= dawgie.Factories.<k>.name -> (k, positive)"""
+        if not (isinstance(e, ast.Compare) and len(e.ops) == 1 and isinstance(e.ops[0], (ast.Eq, ast.NotEq))):
+            return None
+        for x, y in ((e.left, e.comparators[0]), (e.comparators[0], e.left)):
+            if isinstance(y, ast.Attribute) and y.attr == 'name' and isinstance(y.value, ast.Attribute):
+                sym = self.prog.resolve_in(y.value, self.f) or ''
+                if sym.startswith(FACTORIES + '.') and sym.rsplit('.', 1)[1] in self.members:
+                    x2 = _deref(self.f, x)
+                    if isinstance(x2, ast.Attribute) and x2.attr == '__name__' and _job_get(_deref(self.f, x2.value), 'factory'):
+                        return sym.rsplit('.', 1)[1], isinstance(e.ops[0], ast.Eq), _job_get(_deref(self.f, x2.value), 'factory')[0]
+        return None
+
+    def extra_atom(self, e):
+        return isinstance(e, ast.Compare) and self._atom(e) is not None
+
+    def test(self, e, st):
+        a = self._atom(e)
+        if a is None:
+            return None
+        k, pos, _job = a
+        cur = fget(st, 'kind')
+        if cur is not None:
+            yes, no = ((st,), ()) if cur == k else ((), (st,))
+        elif fget(st, ('not', k)):
+            yes, no = (), (st,)
+        else:
+            yes, no = (fput(fput(st, 'kind', k), 'kjob', _job),), (fput(st, ('not', k), True),)
+        return (yes, no) if pos else (no, yes)
+
+    def on_for(self, node, st):
+        # a new job: forget the kind of the previous one when the loop variable is the job
+        st = frozenset((k, v) for k, v in st if not (k in ('kind', 'kjob') or (isinstance(k, tuple) and k[0] == 'not'))) if any(
+            isinstance(n, ast.Name) and n.id in self.jobs for n in ast.walk(node.target)
+        ) else st
+        return super().on_for(node, st)
+
+    jobs = frozenset()
+
+
+def _emissions(model):
+    """task-message constructions: (func, make call, {field: expr})"""
+    out = []
+    for f in model.prog.funcs.values():
+        if f.module.name != FARM and not f.module.name.startswith('dawgie.pl.'):
+            continue
+        for c in f.calls():
+            if model.prog.callee(c, f) == model.make.qname and model.make_role(c, f) == 'task':
+                b = model.make_args(c, f)
+                out.append((f, c, {fld: b.get(p) for fld, p in model.field_param.items()}))
+    return out
+
+
+def _runid_sources(model):
+    """functions that may draw a fresh run id (call dawgie.db.next)"""
+    return {f.qname for f in model.prog.funcs.values() if f.module.name == FARM for c in f.calls() if model.prog.callee(c, f) == DB_NEXT}
+
+
+def _rule5(model, rep):
+    prog, cg = model.prog, model.cg
+    with rep.rule(
+        'R-C11-5',
+        'the task message is built from the unit it is made for: job id = tag of the job, run id and target = the arguments, factory = '
+        '(module, name) of the job factory as the worker takes it apart; per factory kind: analysis -> no target, task / regress -> each '
+        'released target, regress -> run id 0, otherwise the run id of the job; the message is queued on every path',
+        floor=6,
+        breaks='a worker executes another algorithm, target or run than the scheduler released (results are stored under the wrong run id, '
+        'or a regression is run as an ordinary run)',
+    ) as r:
+        # (a) make() maps its parameters one-to-one to the MSG fields
+        r.instance()
+        rep.analysed(model.make)
+        need = ('jobid', 'runid', 'target', 'factory', 'type', 'success', 'revision')
+        fp = model.field_param
+        ok = all(k in fp for k in need) and len(set(fp.values())) == len(fp)
+        r.check(
+            ok,
+            f'{model.make.qname}:field-mapping',
+            where(model.make),
+            'MSG fields ' + ', '.join(f'{k}<-{fp.get(k)}' for k in need),
+            f'{model.make.qname} no longer passes a distinct, unmodified parameter to each of the MSG fields {[k for k in need if k not in fp] or list(need)}',
+        )
+        ems = _emissions(model)
+        if not ems:
+            raise AnalysisError('no construction of a task message (make(typ=Type.task)) found')
+        members = _factory_members(model)
+        runnable = [k for k in members if k not in NOT_RUNNABLE]
+        rid_fns = _runid_sources(model)
+        seen_kinds = {}
+        for f, mk, fields in ems:
+            r.instance()
+            rep.analysed(f)
+            key0 = f'{f.qname}:{model.make.name}(typ=task)'
+            params = f.params()
+            # ---- unit variables of the emission
+            jid, rid, tgt, fac = fields.get('jobid'), fields.get('runid'), fields.get('target'), fields.get('factory')
+            jobvar = jid.value.id if isinstance(jid, ast.Attribute) and jid.attr == 'tag' and isinstance(jid.value, ast.Name) else None
+            stable = lambda n: n is not None and (_stores(f, n) == 0 if n in params else _stores(f, n) == 1)  # noqa: E731
+            r.check(
+                jobvar is not None and stable(jobvar),
+                key0 + ':jobid',
+                where(f, mk),
+                f'job id is {jobvar}.tag',
+                f'the job id of the task message is {norm(jid)[:50] if jid is not None else "missing"}, not the tag of the job the message is made for',
+            )
+            ridvar = rid.id if isinstance(rid, ast.Name) else None
+            tgtvar = tgt.id if isinstance(tgt, ast.Name) else None
+            # parametrised builder (the unit is bound at the call sites) unless none of the unit variables is a parameter
+            inl = not any(v in params for v in (jobvar, ridvar, tgtvar) if v) or not [e for e in cg.callers(f.qname) if e.kind == DIRECT]
+            if not inl:
+                r.check(
+                    ridvar in params and tgtvar in params and stable(ridvar) and stable(tgtvar) and len({jobvar, ridvar, tgtvar}) == 3,
+                    key0 + ':runid-target-parameters',
+                    where(f, mk),
+                    f'run id <- parameter {ridvar}, target <- parameter {tgtvar} (never re-bound)',
+                    f'run id / target of the task message are not the unmodified parameters of {f.qname}',
+                )
+            # ---- factory: (task_module(F), F.__name__) with F = job.get('factory'); the workers use [0] as module, [1] as attribute
+            fe = _deref(f, fac) if fac is not None else None
+            f_ok = False
+            if isinstance(fe, ast.Tuple) and len(fe.elts) == 2:
+                m0, n1 = fe.elts
+                F = None
+                if isinstance(m0, ast.Call) and len(m0.args) == 1:
+                    fo = prog.func_of(prog.callee(m0, f) or '')
+                    if fo is not None and fo.qname.endswith('.task_module'):
+                        F = _deref(f, m0.args[0])
+                if F is not None and isinstance(n1, ast.Attribute) and n1.attr == '__name__':
+                    g1, g0 = _job_get(_deref(f, n1.value), 'factory'), _job_get(F, 'factory')
+                    f_ok = g1 is not None and g0 is not None and g0[0] == g1[0] == jobvar
+            r.check(
+                f_ok,
+                key0 + ':factory',
+                where(f, mk),
+                f"factory is (task_module(F), F.__name__) with F = {jobvar}.get('factory')",
+                f"the factory field {norm(fac)[:60] if fac is not None else 'missing'} is not (task_module(F), F.__name__) of the factory of the same job",
+            )
+            # ---- queued on every path
+            mv = None
+            for n in f.own_nodes():
+                if isinstance(n, ast.Assign) and n.value is mk and len(n.targets) == 1 and isinstance(n.targets[0], ast.Name):
+                    mv = n.targets[0].id
+
+            class Q(Flow):
+                def on_call(s, call, st):  # noqa: N805
+                    fn = call.func
+                    if isinstance(fn, ast.Attribute) and fn.attr in ('append', 'insert') and call.args and (
+                        call.args[-1] is mk or (mv and _is_name(call.args[-1], mv))
+                    ):
+                        base = fn.value
+                        alts = [base.body, base.orelse] if isinstance(base, ast.IfExp) else [base]
+                        if all(isinstance(a, (ast.Name, ast.Attribute)) and (prog.resolve_in(a, f) or '') in model.farm_containers() for a in alts):
+                            return (min(max(st, 0) + 1, 2),)
+                    if call is mk:
+                        return (0,)
+                    return (st,)
+
+            q = Q()
+            o = q.run(f.node, -1)
+            ends = {st for st in o.normal | o.ret if st >= 0}
+            r.check(
+                bool(ends) and all(st >= 1 for st in ends),
+                key0 + ':queued',
+                where(f, mk),
+                'the made message is appended to a farm queue on every path',
+                f'{f.qname} can return without having queued the task message it made: the released unit is never executed',
+            )
+            # ---- contexts: where the unit variables are bound to the job being dispatched
+            ctxs = []
+            if inl:
+                ctxs.append((f, mk, {'job': ast.Name(id=jobvar or '?', ctx=ast.Load()), 'rid': rid, 'tgt': tgt}))
+            else:
+                for e in cg.callers(f.qname):
+                    if e.kind != DIRECT or e.src is None:
+                        r.fail(f'{f.qname}:referenced-as-callback', where(f), f'{f.qname} is referenced as a callback in {e.src.qname if e.src else "?"}: its arguments are not known')
+                        continue
+                    b = _bind(e.call, f.params())
+                    if b is None:
+                        r.fail(f'{e.src.qname}:{norm(e.call)[:80]}', where(e.src, e.call), 'call of the task-message builder whose arguments cannot be bound')
+                        continue
+                    # a unit variable the message does not use (reported above) is not checked again per call site
+                    ctxs.append((e.src, e.call, {'job': b.get(jobvar), 'rid': b.get(ridvar), 'tgt': b.get(tgtvar)}))
+            by_func = {}
+            for g, node, args in ctxs:
+                by_func.setdefault(g.qname, (g, []))[1].append((node, args))
+            for gq, (g, lst) in sorted(by_func.items()):
+                rep.analysed(g)
+                kf = _Kind(model, g, members)
+                kf.jobs = frozenset(a['job'].id for _n, a in lst if isinstance(a['job'], ast.Name))
+                kf.run(g.node, frozenset())
+                pvj = None
+                for node, a in sorted(lst, key=lambda x: _pos(x[0])):
+                    r.instance()
+                    sts = kf.at.get(id(node), set())
+                    kinds = {fget(st, 'kind') for st in sts}
+                    key = f'{gq}:{norm(node)[:90]}'
+                    if len(kinds) != 1 or None in kinds:
+                        r.fail(key, where(g, node), f'task message made on a path where the factory kind of the job is not decided ({sorted(str(k) for k in kinds)}): '
+                               'target and run id cannot be checked against the kind')
+                        continue
+                    k = kinds.pop()
+                    seen_kinds.setdefault(k, []).append(key)
+                    job = a['job']
+                    jn = job.id if isinstance(job, ast.Name) else None
+                    kjobs = {fget(st, 'kjob') for st in sts}
+                    if jn is not None and kjobs != {jn}:
+                        r.fail(key + ':kind-of-this-job', where(g, node), f'the factory kind tested on this path is that of {sorted(str(x) for x in kjobs)}, not of the job {jn} the message is made for')
+                    # the kind test is about the same job
+                    # target
+                    t = a['tgt']
+                    if t is None:
+                        t_ok, t_det = True, 'target not taken from the arguments (reported at the message)'
+                    elif k == 'analysis':
+                        t_ok, t_det = _const(t, None), 'target None (all targets)'
+                    else:
+                        t_ok, t_det = False, ''
+                        if isinstance(t, ast.Name):
+                            for n in g.own_nodes():
+                                if isinstance(n, ast.For) and _is_name(n.target, t.id) and any(node is x for x in ast.walk(n)):
+                                    it = n.iter
+                                    while isinstance(it, ast.Call) and isinstance(it.func, ast.Name) and it.func.id in SEQ_COPY and it.args:
+                                        it = it.args[0]
+                                    jg = _job_get(_deref(g, it), 'do')
+                                    rebound = [x for b in n.body for x in ast.walk(b) if isinstance(x, ast.Name) and x.id == t.id and isinstance(x.ctx, (ast.Store, ast.Del))]
+                                    t_ok = jg is not None and jg[0] == jn and not rebound
+                                    t_det = f"each target of {jn}.get('do')"
+                    # run id
+                    ri = a['rid']
+                    if ri is None:
+                        r_ok, r_det = True, 'run id not taken from the arguments (reported at the message)'
+                    elif k == 'regress':
+                        r_ok, r_det = _const(ri, 0), 'run id 0'
+                    else:
+                        rv = _deref(g, ri)
+                        r_ok = False
+                        r_det = ''
+                        if isinstance(rv, ast.Call):
+                            fo = prog.func_of(prog.callee(rv, g) or '')
+                            if fo is not None and fo.qname in rid_fns and len(rv.args) == 1 and _is_name(rv.args[0], jn):
+                                r_ok, r_det = True, f'run id {fo.name}({jn})'
+                        elif isinstance(ri, ast.Name) and g.qname in rid_fns:
+                            r_ok, r_det = True, 'run id computed in place (R-C11-6)'
+                    r.check(
+                        t_ok and r_ok and (jn is not None or job is None),
+                        key,
+                        where(g, node),
+                        f'{k}: {t_det}; {r_det}',
+                        f'{k} job: the task message gets target {norm(t)[:30] if t is not None else "?"} and run id {norm(ri)[:30] if ri is not None else "?"}; expected '
+                        + ('no target' if k == 'analysis' else "each released target of the same job's do set")
+                        + ' and '
+                        + ('run id 0' if k == 'regress' else 'the run id drawn / reused for this job'),
+                    )
+        r.instance()
+        missing = [k for k in runnable if k not in seen_kinds]
+        r.check(
+            not missing,
+            f'{FARM}:factory-kinds-exhaustive',
+            mwhere(model.farm, model.farm.tree),
+            f'a task message is made for each of {runnable}',
+            f'no task message is made for jobs of factory kind {missing}: such work is released by the scheduler but never sent',
+        )
+        # (c) the worker side takes the factory apart the same way
+        n_w = 0
+        for wq in ('dawgie.pl.worker.cluster.execute', 'dawgie.pl.worker.aws.execute'):
+            if not prog.has_func(wq):
+                continue
+            w = prog.funcs[wq]
+            for c in w.calls():
+                if _is_name(c.func, 'getattr') and len(c.args) == 2 and isinstance(c.args[0], ast.Call) and (prog.callee(c.args[0], w) or '').endswith('importlib.import_module'):
+                    n_w += 1
+                    r.instance()
+                    rep.analysed(w)
+                    a0 = c.args[0].args[0] if c.args[0].args else None
+                    a1 = c.args[1]
+
+                    def idx(e, i):
+                        return isinstance(e, ast.Subscript) and _const(e.slice, i) and isinstance(e.value, ast.Attribute) and e.value.attr == 'factory'
+
+                    r.check(
+                        idx(a0, 0) and idx(a1, 1) and norm(a0.value) == norm(a1.value),
+                        f'{wq}:{norm(c)[:80]}',
+                        where(w, c),
+                        'factory[0] is imported as the module, factory[1] looked up in it',
+                        f'{wq} does not take the factory field apart as (module, name): {norm(c)[:80]}',
+                        nontrivial=False,
+                    )
+        if not n_w:
+            raise AnalysisError('no worker resolves the factory field of a task message (getattr(import_module(...), ...))')
+        # (d) ... and passes job id / run id / target of the received message to the parameter of the same name of Context.run
+        runq = 'dawgie.pl.worker.Context.run'
+        if prog.has_func(runq):
+            run = prog.funcs[runq]
+            flds = set(fp)
+            for wq in ('dawgie.pl.worker.cluster.execute', 'dawgie.pl.worker.aws.execute'):
+                if not prog.has_func(wq):
+                    continue
+                w = prog.funcs[wq]
+                for c in w.calls():
+                    fo = prog.func_of(prog.callee(c, w) or '')
+                    if fo is not run:
+                        continue
+                    b = _bind(c, _params(run))
+                    if b is None:
+                        continue
+                    r.instance()
+                    bad = []
+                    n_chk = 0
+                    for pn, e in b.items():
+                        if pn not in ('jobid', 'runid', 'target') or pn not in flds:
+                            continue  # only parameters that carry the name of a message field are claimed
+                        n_chk += 1
+                        read = {x.attr for x in ast.walk(e) if isinstance(x, ast.Attribute) and x.attr in flds and isinstance(x.value, ast.Name)}
+                        if read != {pn}:
+                            bad.append(f'{pn} <- {norm(e)[:30]}')
+                    r.check(
+                        not bad,
+                        f'{wq}:{run.name}-arguments',
+                        where(w, c),
+                        f'{n_chk} message field(s) passed to the parameter of the same name',
+                        f'{wq} runs the task with {"; ".join(bad)}: not the field of the received task message that the parameter stands for',
+                    )
+
+
+# ---------------------------------------------------------------------------
+# R-C11-6
+
+
+class _RunId(FactFlow):
+    """facts: ('src', v) 'stored' | 'fresh' for locals, 'wasnone' True/False (the stored run id was tested against None)"""
+
+    def __init__(self, model, func):
+        super().__init__(model, func)
+        self.uses = []  # (node, var, state)
+        self.bad_default = []
+
+    def _none(self, e):
+        if isinstance(e, ast.Compare) and len(e.ops) == 1 and isinstance(e.left, ast.Name) and _const(e.comparators[0], None):
+            if isinstance(e.ops[0], (ast.Is, ast.Eq)):
+                return e.left.id, True
+            if isinstance(e.ops[0], (ast.IsNot, ast.NotEq)):
+                return e.left.id, False
+        return None
+
+    def extra_atom(self, e):
+        return isinstance(e, ast.Compare) and self._none(e) is not None
+
+    def test(self, e, st):
+        n = self._none(e)
+        if n is None or fget(st, ('src', n[0])) != 'stored':
+            return None
+        t, f = fsplit(st, 'wasnone')
+        return (t, f) if n[1] else (f, t)
+
+    def assigned(self, s, name, st):
+        v = s.value if isinstance(s, ast.Assign) else None
+        if isinstance(v, ast.Call):
+            jg = _job_get(v, 'runid')
+            if jg is not None:
+                if jg[1] is not None and not _const(jg[1], None):
+                    self.bad_default.append(v)
+                return fput(fput(st, ('src', name), 'stored'), 'wasnone', None)
+            if self.prog.callee(v, self.f) == DB_NEXT:
+                return fput(st, ('src', name), 'fresh')
+        if isinstance(v, ast.Name) and fget(st, ('src', v.id)):
+            return fput(st, ('src', name), fget(st, ('src', v.id)))
+        return st
+
+    def kill_name(self, st, name):
+        return frozenset((k, v) for k, v in st if not (isinstance(k, tuple) and len(k) > 1 and k[1] == name))
+
+    def call(self, call, st):
+        for a in list(call.args) + [k.value for k in call.keywords]:
+            if isinstance(a, ast.Name) and fget(st, ('src', a.id)):
+                self.uses.append((call, a.id, st))
+        return (st,)
+
+    def on_return(self, node, st):
+        if isinstance(node.value, ast.Name) and fget(st, ('src', node.value.id)):
+            self.uses.append((node, node.value.id, st))
+        return super().on_return(node, st)
+
+
+def _rule6(model, rep):
+    prog = model.prog
+    with rep.rule(
+        'R-C11-6',
+        "a fresh run id is drawn from the database exactly when the job's stored run id is None; otherwise the stored one is used",
+        floor=1,
+        breaks='a job triggered by an event that carried a run id is executed under a new one (its results are detached from the '
+        'triggering run), or a job without one is sent with run id None',
+    ) as r:
+        fns = sorted(_runid_sources(model))
+        if not fns:
+            raise AnalysisError('no call of dawgie.db.next() in the farm (run id allocation vanished)')
+        for q in fns:
+            f = prog.funcs[q]
+            rep.analysed(f)
+            fl = _RunId(model, f)
+            fl.run(f.node, frozenset())
+            for c in f.calls():
+                if prog.callee(c, f) != DB_NEXT:
+                    continue
+                r.instance()
+                sts = fl.at.get(id(c), set())
+                ok = bool(sts) and all(fget(st, 'wasnone') is True for st in sts)
+                r.check(
+                    ok,
+                    f'{q}:{norm(c)}',
+                    where(f, c),
+                    "db.next() is called only after the job's stored run id was found to be None",
+                    f'{norm(c)} can be called although the run id stored in the job is not None (or was never tested): a run id the '
+                    'triggering event carried is replaced by a fresh one',
+                )
+            for d in fl.bad_default:
+                r.fail(f'{q}:{norm(d)}', where(f, d), f"{norm(d)}: a missing run id must read as None, otherwise no fresh run id is ever drawn")
+            uses = [(n, v, st) for n, v, st in fl.uses if not (isinstance(n, ast.Call) and (prog.callee(n, f) or '').startswith(f.module.name + '.log.'))]
+            rets = [(n, v, st) for n, v, st in uses if isinstance(n, ast.Return)] or uses
+            bad = []
+            for n, v, st in rets:
+                wn, src = fget(st, 'wasnone'), fget(st, ('src', v))
+                if wn is None or (wn is True and src != 'fresh') or (wn is False and src != 'stored'):
+                    bad.append((n, v, wn, src))
+            r.check(
+                bool(rets) and not bad,
+                f'{q}:run-id-used',
+                where(f, bad[0][0] if bad else None),
+                f'{len(rets)} use state(s): fresh id iff the stored one was None',
+                f'{q}: the run id handed on is '
+                + (f'{bad[0][3]} although the stored run id was {"None" if bad[0][2] else "not None" if bad[0][2] is False else "never tested"}' if bad else 'never used')
+                + ' (expected: a fresh id exactly when the job carried none)',
+            )
+
+
+# ---------------------------------------------------------------------------
+
+
+def check(ctx):
+    rep = Report(
+        PID,
+        ctx.tier,
+        ctx.prog,
+        'Decides from pl/farm.py, pl/message.py, pl/worker/{__init__,cluster,aws}.py, pl/state.py and state.dot: (1) every insertion into '
+        'the idle-worker list is the registering hand under the revision equality or a re-insertion of hands of the list itself '
+        '(value provenance + path facts), status polls and stale registrations are answered with abort; (2) connectionLost removes '
+        'the hand on every path, tasks go only to hands popped from the list, closed world of messages written to a hand; (3) the '
+        'hand-over is reached only with is_pipeline_active() tested true through the dispatch predicate (activity / emptiness facts over '
+        'all paths of dispatch), notify / notify_all / FSM.load tell waiting hands to leave when inactive; (4) loop bound by both '
+        'lists, who may shrink the task queue; (5) content of the task message per factory kind; (6) run id reuse or allocation. '
+        'Not decided: bytes of the pickled message, cloud (agency) placement, strict growth of db.next().',
+        assumptions=[
+            'farm functions run on the reactor thread only (checked for the functions that change the idle list)',
+            'FSM triggers behave as the transitions library documents (C10)',
+        ],
+    )
+    rep.not_decided = [
+        'byte-level content of pickled messages',
+        'cloud (_agency) placement: which jobs go to the agency and what the agency does with them',
+        'a fresh run id is strictly larger than every earlier one (R-C08-2)',
+        'a hand that was given a task and registers again on the same, still open connection is listed while it holds a task '
+        '(the worker side closes the socket after receiving its task; nothing on the pipeline side enforces it)',
+    ]
+    model = Model(ctx)
+    _rule1(model, rep)
+    _rule2(model, rep)
+    _rule3(model, rep)
+    _rule4(model, rep)
+    _rule5(model, rep)
+    _rule6(model, rep)
+    return rep
+
+
+_F, _M, _CL, _AWS, _ST = 'pl/farm.py', 'pl/message.py', 'pl/worker/cluster.py', 'pl/worker/aws.py', 'pl/state.py'
+_GATE = 'if msg.revision != dawgie.context.git_rev:'
+_HO = '_workers.pop(0).do(_cluster.pop(0))'
+_LOOP = 'for dummy in range(min(len(_cluster), len(_workers))):'
+_POLL = 'if (\n                msg.revision != dawgie.context.git_rev\n                or not dawgie.context.fsm.is_pipeline_active()\n            ):'
+_CLOST = 'while 0 < _workers.count(self):\n            _workers.remove(self)'
+_ACT = 'dawgie.context.fsm.is_pipeline_active()'
+_STD_TAIL = (
+    'if not dawgie.context.fsm.is_pipeline_active():\n'
+    '        log.debug("Pipeline is not active. Returning from farm.dispatch().")\n'
+    '        return False\n'
+    '    return True'
+)
+_GUARDED = 'if self not in _workers:\n                _workers.append(self)'  # shape after pending fix C11-1
+_REG_BODY = (  # shape after pending fix C11-1
+    "if msg.revision != dawgie.context.git_rev:\n"
+    "            dawgie.pl.message.send(self._abort, self)\n"
+    "            log.warning('Worker and pipeline revisions are not the same.')\n"
+    "            self.transport.loseConnection()\n"
+    "        else:\n"
+    "            # a connection registers once: a repeated register message must\n"
+    "            # not list the hand twice (it would be handed two tasks at once)\n"
+    "            if self not in _workers:\n"
+    "                _workers.append(self)\n"
+    "            self.__incarnation = msg.incarnation\n"
+    "            log.debug(\n"
+    "                'Registered a worker for its %d incarnation.', msg.incarnation\n"
+    "            )\n"
+    "            pass"
+)
+
+VARIANTS = [
+    # ------------------------------------------------------------ R-C11-1 breaking
+    V('hand listed before the revision test', 'B', _F, 'Hand._reg', _GATE, '_workers.append(self)\n        ' + _GATE, 'R-C11-1'),
+    V('revision test inverted at registration', 'B', _F, 'Hand._reg', _GATE, 'if msg.revision == dawgie.context.git_rev:', 'R-C11-1'),
+    V('stale registration not closed', 'B', _F, 'Hand._reg', 'self.transport.loseConnection()', 'pass', 'R-C11-1'),
+    V('stale registration not answered with abort', 'B', _F, 'Hand._reg', 'dawgie.pl.message.send(self._abort, self)', 'pass', 'R-C11-1'),
+    V('notify_all re-inserts without clearing', 'B', _F, 'notify_all', '_workers.clear()', 'pass', 'R-C11-1'),
+    V('_workers_sort re-inserts without clearing', 'B', _F, '_workers_sort', '_workers.clear()', 'pass', 'R-C11-1'),
+    V('status poll: and instead of or', 'B', _F, 'Hand._process', 'or not ' + _ACT, 'and not ' + _ACT, 'R-C11-1'),
+    V('status poll ignores the activity', 'B', _F, 'Hand._process', 'or not ' + _ACT, '', 'R-C11-1'),
+    V('status poll ignores the revision', 'B', _F, 'Hand._process', 'msg.revision != dawgie.context.git_rev\n                or not ' + _ACT, 'not ' + _ACT, 'R-C11-1'),
+    V('status poll answers proceed on the negative branch', 'B', _F, 'Hand._process', 'dawgie.pl.message.send(self._abort, self)', 'dawgie.pl.message.send(self.__proceed, self)', 'R-C11-1'),
+    V('foreign object put into the idle list', 'B', _F, 'crew', 'return {', '_workers.append(object())\n    return {', 'R-C11-1'),
+    V('idle list aliased', 'B', _F, 'crew', 'return {', 'idle = _workers\n    idle.append(None)\n    return {', 'R-C11-1'),
+    V('idle list rebound from another list', 'B', _F, 'clear', '_workers.clear()', 'global _workers\n    _workers = list(_busy)', 'R-C11-1'),
+    V('cloud registration without the revision test', 'B', _AWS, 'Contractor._reg', _GATE, 'if False:', 'R-C11-1'),
+    V('cloud registration inverted', 'B', _AWS, 'Contractor._reg', _GATE, 'if msg.revision == dawgie.context.git_rev:', 'R-C11-1'),
+    V('abort message built with success True', 'B', _F, 'Hand.__init__', 'typ=dawgie.pl.message.Type.response, suc=False', 'typ=dawgie.pl.message.Type.response, suc=True', 'R-C11-1'),
+    V('new hand smuggled through the sort buckets', 'B', _F, '_workers_sort', '_workers.clear()', '_workers.clear()\n    wg[wk[0]].append(Hand(None))', 'R-C11-1'),
+    V('hand listed twice at registration', 'B', _F, 'Hand._reg', '_workers.append(self)', '_workers.append(self)\n            _workers.append(self)', 'R-C11-1'),
+    V('revision compared with another field', 'B', _F, 'Hand._reg', 'msg.revision != dawgie.context.git_rev', 'msg.incarnation != dawgie.context.git_rev', 'R-C11-1'),
+    V('registration appends in a pool thread', 'B', _F, 'Hand._reg', '_workers.append(self)', 'twisted.internet.threads.deferToThread(_workers.append, self)', 'R-C11-1'),
+    # ------------------------------------------------------------ R-C11-2 breaking
+    V('connectionLost emptied', 'B', _F, 'Hand.connectionLost', _CLOST, 'pass', 'R-C11-2'),
+    V('connectionLost removes one occurrence only', 'B', _F, 'Hand.connectionLost', _CLOST, 'if self in _workers:\n            _workers.remove(self)', 'R-C11-2'),
+    V('connectionLost loop condition inverted', 'B', _F, 'Hand.connectionLost', 'while 0 < _workers.count(self):', 'while 0 == _workers.count(self):', 'R-C11-2'),
+    V('hand-over without pop', 'B', _F, 'dispatch', _HO, '_workers[0].do(_cluster.pop(0))', 'R-C11-2'),
+    V('hand-over to the last hand read by index via a local', 'B', _F, 'dispatch', _HO, 'w = _workers[-1]\n        w.do(_cluster.pop(0))', 'R-C11-2'),
+    V('Hand.do sends conditionally', 'B', _F, 'Hand.do', 'return dawgie.pl.message.send(task, self)', 'if task.target:\n            return dawgie.pl.message.send(task, self)\n        return None', 'R-C11-2'),
+    V('task written by notify', 'B', _F, 'Hand.notify', 'dawgie.pl.message.send(self.__wait, self)', 'dawgie.pl.message.send(dawgie.pl.message.make(typ=dawgie.pl.message.Type.task), self)', 'R-C11-2'),
+    V('task handed to the registering hand itself', 'B', _F, 'Hand._reg', '_workers.append(self)', '_workers.append(self)\n            self.do(_cluster.pop(0))', 'R-C11-2'),
+    # ------------------------------------------------------------ R-C11-3 breaking
+    V('something_to_do true when inactive', 'B', _F, 'something_to_do', 'log.debug("Pipeline is not active. Returning from farm.dispatch().")\n        return False', 'return True', 'R-C11-3'),
+    V('something_to_do tests activity only when busy', 'B', _F, 'something_to_do', 'if not ' + _ACT + ':', 'if not ' + _ACT + ' and _busy:', 'R-C11-3'),
+    V('dispatch ignores the predicate', 'B', _F, 'dispatch', 'if not something_to_do():\n        return', 'something_to_do()', 'R-C11-3'),
+    # the next three are written against the shape after pending fix C11-2
+    V('archive fired with tasks still queued', 'B', _F, 'dispatch', 'len(_cluster),\n                len(_cloud),', 'len(_cloud),', 'R-C11-3'),
+    V('archive fired with jobs still to be queued', 'B', _F, 'dispatch', 'len(_jobs),\n                len(_busy),', 'len(_busy),', 'R-C11-3'),
+    V('archive fired with rejected cloud jobs pending again', 'B', _F, 'dispatch', 'len(_reject),\n                len(_repeat),', 'len(_repeat),', 'R-C11-3'),
+    V('emptiness test as a conjunction of not', 'N', _F, 'dispatch',
+      'and not sum(\n            [\n                len(_jobs),\n                len(_busy),\n                len(_cluster),\n                len(_cloud),\n'
+      '                # cloud jobs the agency handed back are re-queued further down\n                len(_reject),\n                len(_repeat),\n            ]\n        )',
+      'and not _jobs and not _busy and not _cluster and not _cloud and not _reject and not _repeat', None),
+    V('trigger fired right before the hand-over', 'B', _F, 'dispatch', '_workers_sort()', '_workers_sort()\n    dawgie.context.fsm.update_trigger()', 'R-C11-3'),
+    V('notify test inverted', 'B', _F, 'Hand.notify', 'if not keep:', 'if keep:', 'R-C11-3'),
+    V('notify does not close', 'B', _F, 'Hand.notify', 'self.transport.loseConnection()', 'pass', 'R-C11-3'),
+    V('notify does not abort', 'B', _F, 'Hand.notify', 'dawgie.pl.message.send(self._abort, self)', 'pass', 'R-C11-3'),
+    V('notify default keeps', 'B', _F, 'Hand.notify', 'keep = ' + _ACT, 'keep = True', 'R-C11-3'),
+    V('notify returns a constant', 'B', _F, 'Hand.notify', 'return keep', 'return True', 'R-C11-3'),
+    V('notify_all keeps unconditionally', 'B', _F, 'notify_all', 'keep = ' + _ACT, 'keep = True', 'R-C11-3'),
+    V('notify_all keeps every hand listed', 'B', _F, 'notify_all', 'cclist = list(filter(lambda w: w.notify(keep), _workers))', 'for w in _workers:\n        w.notify(keep)\n    cclist = list(_workers)', 'R-C11-3'),
+    V('notify_all notifies only the first hand', 'B', _F, 'notify_all', 'filter(lambda w: w.notify(keep), _workers)', 'filter(lambda w: w.notify(keep), _workers[:1])', 'R-C11-3'),
+    V('reload does not notify', 'B', _ST, 'FSM.load', 'dawgie.pl.farm.notify_all()', 'pass', 'R-C11-3'),
+    V('reload clears the estate before notifying', 'B', _ST, 'FSM.load', 'dawgie.pl.farm.notify_all()\n            dawgie.pl.farm.clear()', 'dawgie.pl.farm.clear()\n            dawgie.pl.farm.notify_all()', 'R-C11-3'),
+    V('notify default negated', 'B', _F, 'Hand.notify', 'keep = ' + _ACT, 'keep = not ' + _ACT, 'R-C11-3'),
+    V('notify_all keep negated', 'B', _F, 'notify_all', 'keep = ' + _ACT, 'keep = not ' + _ACT, 'R-C11-3'),
+    V('something_to_do inverted', 'B', _F, 'something_to_do', 'if not ' + _ACT + ':', 'if ' + _ACT + ':', 'R-C11-3'),
+    V('hand-over moved above the predicate', 'B', _F, 'dispatch', 'if not something_to_do():\n        return', 'if _cluster and _workers:\n        ' + _HO + '\n    if not something_to_do():\n        return', 'R-C11-3'),
+    # ------------------------------------------------------------ R-C11-4 breaking
+    V('loop bound plus one', 'B', _F, 'dispatch', 'range(min(len(_cluster), len(_workers)))', 'range(min(len(_cluster), len(_workers)) + 1)', 'R-C11-4'),
+    V('loop bound is the task queue only', 'B', _F, 'dispatch', 'range(min(len(_cluster), len(_workers)))', 'range(len(_cluster))', 'R-C11-4'),
+    V('loop bound is the idle list only', 'B', _F, 'dispatch', 'range(min(len(_cluster), len(_workers)))', 'range(len(_workers))', 'R-C11-4'),
+    V('loop bound is max', 'B', _F, 'dispatch', 'range(min(len(_cluster), len(_workers)))', 'range(max(len(_cluster), len(_workers)))', 'R-C11-4'),
+    V('task read, not popped', 'B', _F, 'dispatch', _HO, '_workers.pop(0).do(_cluster[0])', 'R-C11-4'),
+    V('two tasks popped per step', 'B', _F, 'dispatch', _HO, _HO + '\n        _cluster.pop(0)', 'R-C11-4'),
+    V('queue cleared in dispatch', 'B', _F, 'dispatch', '_cluster.extend(_reject)', '_cluster.clear()\n    _cluster.extend(_reject)', 'R-C11-4'),
+    V('queue truncated in dispatch', 'B', _F, 'dispatch', '_cluster.extend(_reject)', '_cluster.extend(_reject)\n    del _cluster[10:]', 'R-C11-4'),
+    # ------------------------------------------------------------ R-C11-5 breaking
+    V('regression sent with the job run id', 'B', _F, 'dispatch', '_put(job=j, runid=0, target=t, where=where)', '_put(job=j, runid=runid, target=t, where=where)', 'R-C11-5'),
+    V('task sent with run id 0', 'B', _F, 'dispatch', '_put(job=j, runid=runid, target=t, where=where)', '_put(job=j, runid=0, target=t, where=where)', 'R-C11-5'),
+    V('analysis sent with a target', 'B', _F, 'dispatch', '_put(job=j, runid=runid, target=None, where=where)', '_put(job=j, runid=runid, target=j.tag, where=where)', 'R-C11-5'),
+    V('task targets taken from todo', 'B', _F, 'dispatch', "for t in sorted(list(j.get('do'))):\n                    _put(job=j, runid=runid", "for t in sorted(list(j.get('todo'))):\n                    _put(job=j, runid=runid", 'R-C11-5'),
+    V('regress branch removed', 'B', _F, 'dispatch', 'elif fn == dawgie.Factories.regress.name:', 'elif False:', 'R-C11-5'),
+    V('kind test on another job', 'B', _F, 'dispatch', "fn = j.get('factory').__name__", "fn = _jobs[0].get('factory').__name__", 'R-C11-5'),
+    V('job id replaced by the target', 'B', _F, '_put', 'jid=job.tag,', 'jid=target,', 'R-C11-5'),
+    V('run id constant in the message', 'B', _F, '_put', 'rid=runid,', 'rid=0,', 'R-C11-5'),
+    V('run id re-bound before the message is made', 'B', _F, '_put', 'now = datetime.datetime.now(datetime.UTC)', 'runid = runid or 1\n    now = datetime.datetime.now(datetime.UTC)', 'R-C11-5'),
+    V('factory tuple swapped', 'B', _F, '_put', 'fac=(dawgie.util.task_module(fac), fac.__name__),', 'fac=(fac.__name__, dawgie.util.task_module(fac)),', 'R-C11-5'),
+    V('message queued conditionally', 'B', _F, '_put', ').append(msg)', ').append(msg) if where else None', 'R-C11-5'),
+    V('make maps the run id from another parameter', 'B', _M, 'make', 'runid=rid,', 'runid=inc,', 'R-C11-5'),
+    V('make drops the target', 'B', _M, 'make', 'target=target,', 'target=None,', 'R-C11-5'),
+    V('worker swaps the factory parts', 'B', _CL, 'execute', 'importlib.import_module(m.factory[0]), m.factory[1]', 'importlib.import_module(m.factory[1]), m.factory[0]', 'R-C11-5'),
+    V('cluster worker swaps run id and target', 'B', _CL, 'execute', 'm.jobid, m.runid, m.target, m.timing', 'm.jobid, m.target, m.runid, m.timing', 'R-C11-5'),
+    V('aws worker runs with the message target as job id', 'B', _AWS, 'execute', 'job.jobid,\n                    job.runid,', 'job.target,\n                    job.runid,', 'R-C11-5'),
+    V('regression sent with run id None', 'B', _F, 'dispatch', '_put(job=j, runid=0, target=t, where=where)', '_put(job=j, runid=None, target=t, where=where)', 'R-C11-5'),
+    V('kind of another named job tested', 'B', _F, 'dispatch', "fn = j.get('factory').__name__", "other = _jobs[0]\n            fn = other.get('factory').__name__", 'R-C11-5'),
+    # ------------------------------------------------------------ R-C11-6 breaking
+    V('run id read from another key', 'B', _F, 'rerunid', "job.get('runid', None)", "job.get('event', None)", 'R-C11-6'),
+    V('rerunid always draws a fresh id', 'B', _F, 'rerunid', 'if runid is None:', 'if True:', 'R-C11-6'),
+    V('rerunid test inverted', 'B', _F, 'rerunid', 'if runid is None:', 'if runid is not None:', 'R-C11-6'),
+    V('rerunid default is 0', 'B', _F, 'rerunid', "job.get('runid', None)", "job.get('runid', 0)", 'R-C11-6'),
+    V('rerunid returns the stored None', 'B', _F, 'rerunid', 'runid = dawgie.db.next()', 'fresh = dawgie.db.next()', 'R-C11-6'),
+    V('rerunid tests truthiness of another key', 'B', _F, 'rerunid', 'if runid is None:', "if job.get('event') is None:", 'R-C11-6'),
+    # ------------------------------------------------------------------ benign
+    V('_reg with inverted if/else', 'N', _F, 'Hand._reg', _REG_BODY,
+      "if msg.revision == dawgie.context.git_rev:\n            if self not in _workers:\n                _workers.append(self)\n            self.__incarnation = msg.incarnation\n"
+      "        else:\n            dawgie.pl.message.send(self._abort, self)\n            self.transport.loseConnection()", None),
+    V('_reg gate through a local flag', 'N', _F, 'Hand._reg', _GATE, 'stale = msg.revision != dawgie.context.git_rev\n        if stale:', None),
+    V('_reg with an early return', 'N', _F, 'Hand._reg', _REG_BODY,
+      "if dawgie.context.git_rev != msg.revision:\n            dawgie.pl.message.send(self._abort, self)\n            self.transport.loseConnection()\n"
+      "            return\n        log.debug('registering')\n        if self in _workers:\n            return\n        _workers.append(self)\n        self.__incarnation = msg.incarnation", None),
+    V('_reg inlined into _process', 'N', _F, 'Hand._process', 'self._reg(msg)',
+      'if msg.revision != dawgie.context.git_rev:\n                dawgie.pl.message.send(self._abort, self)\n                self.transport.loseConnection()\n'
+      '            elif self not in _workers:\n                _workers.append(self)', None),
+    V('enrolment extracted into a helper', 'N', _F, None,
+      "if self not in _workers:\n                _workers.append(self)\n            self.__incarnation = msg.incarnation\n            log.debug(\n                'Registered a worker for its %d incarnation.', msg.incarnation\n            )\n            pass\n        return",
+      "if self not in _workers:\n                self._enroll(msg)\n            pass\n        return\n\n    def _enroll(self, msg):\n        _workers.append(self)\n        self.__incarnation = msg.incarnation\n        return", None),
+    V('membership guard removed again', 'B', _F, 'Hand._reg', _GUARDED, '_workers.append(self)', 'R-C11-1'),
+    V('membership guard inverted', 'B', _F, 'Hand._reg', 'if self not in _workers:', 'if self in _workers:', 'R-C11-1'),
+    V('membership guard on another list', 'B', _F, 'Hand._reg', 'if self not in _workers:', 'if self not in _busy:', 'R-C11-1'),
+    V('membership guard through count', 'N', _F, 'Hand._reg', 'if self not in _workers:', 'if _workers.count(self) == 0:', None),
+    V('membership guard negated form', 'N', _F, 'Hand._reg', 'if self not in _workers:', 'if not (self in _workers):', None),
+    V('status poll with a local flag', 'N', _F, 'Hand._process', _POLL, 'stale = msg.revision != dawgie.context.git_rev\n            if stale or not ' + _ACT + ':', None),
+    V('status poll positive form', 'N', _F, 'Hand._process', _POLL, 'if not (msg.revision == dawgie.context.git_rev and ' + _ACT + '):', None),
+    V('connectionLost with membership test', 'N', _F, 'Hand.connectionLost', 'while 0 < _workers.count(self):', 'while self in _workers:', None),
+    V('connectionLost with count > 0', 'N', _F, 'Hand.connectionLost', 'while 0 < _workers.count(self):', 'while _workers.count(self) > 0:', None),
+    V('connectionLost with count truthiness and logging', 'N', _F, 'Hand.connectionLost', _CLOST, "log.debug('lost %s', str(reason))\n        while _workers.count(self):\n            _workers.remove(self)", None),
+    V('hand-over as a while loop', 'N', _F, 'dispatch', _LOOP, 'while _cluster and _workers:', None),
+    V('hand-over through locals', 'N', _F, 'dispatch', _HO, 'hand = _workers.pop(0)\n        task = _cluster.pop(0)\n        hand.do(task)', None),
+    V('loop bound arguments swapped', 'N', _F, 'dispatch', 'min(len(_cluster), len(_workers))', 'min(len(_workers), len(_cluster))', None),
+    V('loop bound in a local', 'N', _F, 'dispatch', _LOOP, 'count = min(len(_cluster), len(_workers))\n    for dummy in range(count):', None),
+    V('logging added before the hand-over', 'N', _F, 'dispatch', _LOOP, "log.debug('idle %d queued %d', len(_workers), len(_cluster))\n    " + _LOOP, None),
+    V('hand-over loop extracted into a helper', 'N', _F, None,
+      _LOOP + '\n        ' + _HO + '\n    notify_all()\n    return\n\n\ndef notify_all():',
+      '_assign()\n    notify_all()\n    return\n\n\ndef _assign():\n    ' + _LOOP + '\n        ' + _HO + '\n    return\n\n\ndef notify_all():', None),
+    V('dispatch predicate through a local', 'N', _F, 'dispatch', 'if not something_to_do():\n        return', 'ready = something_to_do()\n    if not ready:\n        return', None),
+    V('something_to_do returns the activity', 'N', _F, 'something_to_do', _STD_TAIL, 'return ' + _ACT, None),
+    V('something_to_do positive form', 'N', _F, 'something_to_do', _STD_TAIL, 'if ' + _ACT + ':\n        return True\n    return False', None),
+    V('notify_all as a comprehension', 'N', _F, 'notify_all', 'cclist = list(filter(lambda w: w.notify(keep), _workers))', 'cclist = [w for w in _workers if w.notify(keep)]', None),
+    V('notify_all leaves the default to notify', 'N', _F, 'notify_all', 'lambda w: w.notify(keep)', 'lambda w: w.notify()', None),
+    V('notify with if/else swapped', 'N', _F, 'Hand.notify',
+      'if not keep:\n            dawgie.pl.message.send(self._abort, self)\n            self.transport.loseConnection()\n        else:\n            dawgie.pl.message.send(self.__wait, self)',
+      'if keep:\n            dawgie.pl.message.send(self.__wait, self)\n        else:\n            dawgie.pl.message.send(self._abort, self)\n            self.transport.loseConnection()', None),
+    V('_put called positionally', 'N', _F, 'dispatch', '_put(job=j, runid=runid, target=None, where=where)', '_put(j, runid, None, where)', None),
+    V('targets iterated without the list() copy', 'N', _F, 'dispatch', "for t in sorted(list(j.get('do'))):\n                    _put(job=j, runid=0", "for t in sorted(j.get('do')):\n                    _put(job=j, runid=0", None),
+    V('kind test with operands swapped', 'N', _F, 'dispatch', 'if fn == dawgie.Factories.analysis.name:', 'if dawgie.Factories.analysis.name == fn:', None),
+    V('factory fetched inline in _put', 'N', _F, '_put', 'fac=(dawgie.util.task_module(fac), fac.__name__),', "fac=(dawgie.util.task_module(job.get('factory')), job.get('factory').__name__),", None),
+    V('notify parameter renamed', 'N', _F, 'Hand.notify', 'keep', 'stay', None, 'all'),
+    V('_workers_sort rewritten with sorted()', 'N', _F, '_workers_sort',
+      'wg = {wa: [] for wa in set(w.address.host for w in _workers)}', 'ordered = sorted(_workers, key=lambda w: str(w.address.host))\n    wg = {wa: [] for wa in set(w.address.host for w in ordered)}', None),
+    V('_workers_sort buckets via setdefault', 'N', _F, '_workers_sort', 'wg[worker.address.host].append(worker)', 'wg.setdefault(worker.address.host, []).append(worker)', None),
+    V('something_to_do without the crew test', 'N', _F, 'something_to_do', 'if dawgie.context.fsm.waiting_on_crew() and not _agency:', 'if False:', None),
+    V('rerunid inlined into dispatch', 'N', _F, 'dispatch', 'runid = rerunid(j)', "runid = j.get('runid', None)\n            if runid is None:\n                runid = dawgie.db.next()", None),
+    V('cluster worker passes the fields by keyword', 'N', _CL, 'execute', 'factory, ps_hint, m.jobid, m.runid, m.target, m.timing', 'factory, ps_hint, jobid=m.jobid, runid=m.runid, target=m.target, timing=m.timing', None),
+    V('dispatch archives before asking for the next batch', 'N', _F, 'dispatch', '_jobs.extend(dawgie.pl.schedule.next_job_batch())', "log.debug('batch')\n    _jobs.extend(dawgie.pl.schedule.next_job_batch())", None),
+    V('extra guard on the hand-over', 'N', _F, 'dispatch', _HO, 'if ' + _ACT + ':\n            ' + _HO, None),
+    V('reload notifies through a local alias of the farm', 'N', _ST, 'FSM.load', 'dawgie.pl.farm.notify_all()\n            dawgie.pl.farm.clear()', "log.info('telling hands to leave')\n            dawgie.pl.farm.notify_all()\n            dawgie.pl.farm.clear()", None),
+    V('rerunid negated test', 'N', _F, 'rerunid', 'if runid is None:', 'if not (runid is not None):', None),
+    V('rerunid without explicit default', 'N', _F, 'rerunid', "job.get('runid', None)", "job.get('runid')", None),
+    V('rerunid with == None', 'N', _F, 'rerunid', 'if runid is None:', 'if runid == None:', None),
+]
